@@ -1,6 +1,8 @@
 /-
-Round trip of whole programs of the fragment (no iterations, simple names): the tokens the program printer
-writes (`progToks`) are read back by the program-level parser model (`parseProgram`) as the same `PModel`.
+Round trip of whole programs of the printable fragment (`for` iterations over ranges / sets / tuples, compound
+names, every variable type, named constraints, `where` constants): the tokens the program printer writes
+(`progToks`) are read back by the program-level parser model (`parseProgram`: PEG phase, then the AST builders) as
+the same `PModel`.
 -/
 import Rooc.Proofs.Format
 import Rooc.Syntax.Program
@@ -8,142 +10,371 @@ import Rooc.Syntax.ProgramToks
 namespace Rooc.Syntax.Proofs
 open Rooc Rooc.Syntax Rooc.Syntax.Doc
 
-/-- tokens an expression is written with (no NEWLINE, `:`, comparison, `s.t.`) -/
-def isExprTok : Tok → Bool
-  | .nl | .colon | .le | .ge | .eq | .lt | .gt | .st => false
-  | _ => true
-
-theorem binKwTok_expr (o : BinOp) : isExprTok (binKwTok o) = true := by cases o <;> rfl
-theorem unKwTok_expr (u : UnOp) : isExprTok (unKwTok u) = true := by cases u <;> rfl
-
-theorem mem_paren_expr {xs : List Tok} (h : ∀ tk ∈ xs, isExprTok tk = true) : ∀ tk ∈ parenToks xs, isExprTok tk = true := by
-  intro tk htk
-  rcases List.mem_cons.mp htk with rfl | htk
-  · rfl
-  · rcases List.mem_append.mp htk with htk | htk
-    · exact h tk htk
-    · simp at htk; subst htk; rfl
-
-mutual
-theorem fmtToks_expr : (t : PExp) → ∀ tk ∈ fmtToks t, isExprTok tk = true
-  | .int _ => by intro tk h; simp [fmtToks] at h; subst h; rfl
-  | .num _ => by intro tk h; simp [fmtToks] at h; subst h; rfl
-  | .bool _ => by intro tk h; simp [fmtToks] at h; subst h; rfl
-  | .var _ => by intro tk h; simp [fmtToks] at h; subst h; rfl
-  | .call n args => by
-    intro tk h
-    simp only [fmtToks] at h
-    rcases List.mem_cons.mp h with rfl | h
-    · rfl
-    · exact mem_paren_expr (fmtToksArgs_expr args) tk h
-  | .un u e => by
-    intro tk h
-    simp only [fmtToks] at h
-    rcases List.mem_cons.mp h with rfl | h
-    · exact unKwTok_expr u
-    · by_cases hl : e.isLeaf = true
-      · simp only [hl, if_true] at h; exact fmtToks_expr e tk h
-      · simp only [hl] at h; exact mem_paren_expr (fmtToks_expr e) tk h
-  | .bin o l r => by
-    intro tk h
-    have hp : ∀ (b : Bool) (e : PExp), (∀ tk ∈ fmtToks e, isExprTok tk = true) →
-        ∀ tk ∈ (if b then parenToks (fmtToks e) else fmtToks e), isExprTok tk = true := by
-      intro b e ih tk h
-      cases b
-      · exact ih tk (by simpa using h)
-      · exact mem_paren_expr ih tk (by simpa using h)
-    simp only [fmtToks] at h
-    rcases List.mem_append.mp h with h | h
-    · exact hp _ l (fmtToks_expr l) tk h
-    · rcases List.mem_cons.mp h with rfl | h
-      · exact binKwTok_expr o
-      · exact hp _ r (fmtToks_expr r) tk h
-  | .str _ | .prim _ | .cvar _ _ | .access _ _ | .block _ _ | .scoped _ _ _ _ => by intro tk h; simp [fmtToks] at h
-theorem fmtToksArgs_expr : (as : List PExp) → ∀ tk ∈ fmtToksArgs as, isExprTok tk = true
-  | [] => by intro tk h; simp [fmtToksArgs] at h
-  | [a] => by simpa [fmtToksArgs] using fmtToks_expr a
-  | a :: b :: rest => by
-    intro tk h
-    simp only [fmtToksArgs] at h
-    rcases List.mem_append.mp h with h | h
-    · exact fmtToks_expr a tk h
-    · rcases List.mem_cons.mp h with rfl | h
-      · rfl
-      · exact fmtToksArgs_expr (b :: rest) tk h
-end
-
-/-- the printed tokens of a well-formed expression are not empty -/
-theorem fmtToks_cons : (t : PExp) → WF t → ∃ tk tl, fmtToks t = tk :: tl
-  | .int _, _ | .num _, _ | .bool _, _ | .var _, _ => by simp [fmtToks]
-  | .call _ _, _ => by simp [fmtToks]
-  | .un _ _, _ => by simp [fmtToks]
-  | .bin o l r, h => by
-    obtain ⟨tk, tl, hl⟩ := fmtToks_cons l h.1
-    by_cases hp : printsParen o false l = true
-    · simp [fmtToks, hp, parenToks]
-    · simp [fmtToks, hp, hl]
-  | .str _, h | .prim _, h | .cvar _ _, h | .access _ _, h | .block _ _, h | .scoped _ _ _ _, h => by simp [WF] at h
+/-! ### one expression -/
 
 /-- **one expression**: printed tokens followed by a terminator are read back -/
-theorem expAt_fmt {e : PExp} (h : WF e) {rest : List Tok} (hc : Closed rest) :
+theorem expAt_fmt {e : PExp} (h : WFx e) {rest : List Tok} (hc : Closed rest) :
     expAt (fmtToks e ++ rest) = .ok (e, rest) := by
   obtain ⟨items, hk, _⟩ := fmt_tk e h
-  exact parseExp_of_main (tk_main hk).1 hk.toIR hc _ (by simp [parseFuel]; omega)
+  exact parseExp_of_main (tk_main hk).1 hk.toIR hc _ (by simp [parseFuel])
 
-/-! ### newlines -/
+theorem fmt_head {e : PExp} (h : WFx e) : ∃ tk tl, fmtToks e = tk :: tl ∧ startTok tk = true := by
+  obtain ⟨items, hk, _⟩ := fmt_tk e h
+  exact tk_head hk
 
-theorem skipNl_expr {tk : Tok} (h : isExprTok tk = true) (tl : List Tok) : skipNl (tk :: tl) = tk :: tl := by
-  cases tk <;> simp [isExprTok] at h <;> rfl
+theorem skipNl_fmt {e : PExp} (h : WFx e) (rest : List Tok) : skipNl (fmtToks e ++ rest) = fmtToks e ++ rest :=
+  skipNl_start (fmt_head h) rest
 
-theorem skipNl_fmt {e : PExp} (h : WF e) (rest : List Tok) : skipNl (fmtToks e ++ rest) = fmtToks e ++ rest := by
-  obtain ⟨tk, tl, ht⟩ := fmtToks_cons e h
-  have := fmtToks_expr e tk (by rw [ht]; exact List.mem_cons_self)
-  rw [ht]; exact skipNl_expr this _
+theorem buildErr_fmt {e : PExp} (h : WFx e) : buildErr e = none := by
+  obtain ⟨items, hk, _⟩ := fmt_tk e h
+  exact tk_valid hk
 
 theorem skipNl_word (w : String) (tl : List Tok) : skipNl (.word w :: tl) = .word w :: tl := rfl
 
-/-! ### objective -/
+/-! ### tokens of a rendering: no `:`, and a leading compound variable -/
 
-/-- well-formed constraint of the fragment -/
-def WFc (c : PConstraint) : Prop :=
-  (match c.name with
-   | none => True
-   | some (.plain n) => isKeyword n = false
-   | some (.compound _ _) => False)
-  ∧ WF c.lhs ∧ (if c.logic = true then c.cmp = .eq ∧ c.rhs = .bool true else WF c.rhs)
-  ∧ c.iterVars = [] ∧ c.iters = []
+theorem iterHead_no_colon {v : IterVar} {vts : List Tok} (h : IterHead v vts) : Tok.colon ∉ vts := by
+  cases h with
+  | single n _ => simp
+  | tuple n ns =>
+    have : ∀ ns : List String, Tok.colon ∉ (ns.flatMap fun m => [Tok.comma, Tok.word m]) := by
+      intro ns; induction ns with
+      | nil => simp
+      | cons m ms ih => simp [List.flatMap_cons, ih]
+    simp [this ns]
+
+mutual
+theorem tk_no_colon {t : PExp} {ts : List Tok} {items : List Item} : Tk t ts items → Tok.colon ∉ ts
+  | .atom ha => by cases ha <;> simp
+  | .paren h => by simp [tk_no_colon h]
+  | .un h hm => by
+    have : ∀ {u : UnOp} {tk : Tok}, tk ∈ unToks u → tk ≠ .colon := by
+      intro u tk h; cases u <;> simp [unToks] at h <;> (first | (subst h; simp) | (rcases h with h | h <;> subst h <;> simp))
+    simp [tk_no_colon h, (this hm).symm]
+  | .bin hl hr _ _ hm => by
+    have : ∀ {o : BinOp} {tk : Tok}, tk ∈ binToks o → tk ≠ .colon := by
+      intro o tk h; cases o <;> simp [binToks] at h <;> (first | (subst h; simp) | (rcases h with h | h <;> subst h <;> simp))
+    simp [tk_no_colon hl, tk_no_colon hr, (this hm).symm]
+  | .imul hj hv _ => by simp [juxt_no_colon hj, varTail_no_colon hv]
+  | .call _ _ ha => by simp [args_no_colon ha]
+  | @Tk.arr ss _ => by
+    have : ∀ ss : List String, Tok.colon ∉ intArrToks ss := by
+      intro ss
+      induction ss with
+      | nil => simp [intArrToks]
+      | cons s ss ih => cases ss <;> simp_all [intArrToks]
+    simp [this ss]
+  | .cvar hi => by simp [idx_no_colon hi]
+  | .access _ _ hi => by simp [acc_no_colon hi]
+  | .block _ _ _ _ ha => by simp [args_no_colon ha]
+  | .scoped _ _ _ _ hi hb => by simp [iters_no_colon hi, tk_no_colon hb]
+theorem varTail_no_colon {vs : List PExp} {vts : List Tok} : VarTail vs vts → Tok.colon ∉ vts
+  | .none => by simp
+  | .var n _ => by simp
+  | .cvar hi => by simp [idx_no_colon hi]
+theorem juxt_no_colon {es : List PExp} {ts : List Tok} : Juxt es ts → Tok.colon ∉ ts
+  | .nil => by simp
+  | .int _ hj => by simp [juxt_no_colon hj]
+  | .num hj => by simp [juxt_no_colon hj]
+  | .paren hin hj => by simp [tk_no_colon hin, juxt_no_colon hj]
+theorem args_no_colon {es : List PExp} {ts : List Tok} : Args es ts → Tok.colon ∉ ts
+  | .nil => by simp
+  | .one h => tk_no_colon h
+  | .cons h hr => by simp [tk_no_colon h, args_no_colon hr]
+theorem idx_no_colon {es : List PExp} {ts : List Tok} : Idx es ts → Tok.colon ∉ ts
+  | .nil => by simp
+  | .var hi => by simp [idx_no_colon hi]
+  | .int _ hi => by simp [idx_no_colon hi]
+  | .brace he hi => by simp [tk_no_colon he, idx_no_colon hi]
+theorem acc_no_colon {es : List PExp} {ts : List Tok} : Acc es ts → Tok.colon ∉ ts
+  | .nil => by simp
+  | .cons he hi => by simp [tk_no_colon he, acc_no_colon hi]
+theorem iters_no_colon {vs : List IterVar} {es : List PExp} {ts : List Tok} : Iters vs es ts → Tok.colon ∉ ts
+  | .one hv _ hi => by
+    have : Tok.colon ∉ _ := iterHead_no_colon hv
+    simp [this, iter_no_colon hi]
+  | .cons hv _ hi hr => by
+    have : Tok.colon ∉ _ := iterHead_no_colon hv
+    simp [this, iter_no_colon hi, iters_no_colon hr]
+theorem iter_no_colon {e : PExp} {ts : List Tok} : Iter e ts → Tok.colon ∉ ts
+  | .range (incl := incl) ha hb => by cases incl <;> simp [tk_no_colon ha, tk_no_colon hb]
+  | .set h => tk_no_colon h
+end
+
+/-- what follows a compound variable that begins a rendering: nothing, or a binary operator -/
+def OpStart (ts' : List Tok) : Prop := ts' = [] ∨ ∃ tk tl o, ts' = tk :: tl ∧ tk ∈ binToks o
+
+theorem binTok_ne {o : BinOp} {tk : Tok} (h : tk ∈ binToks o) : tk ≠ .colon ∧ tk ≠ .us := by
+  cases o <;> simp [binToks] at h <;> (first | (subst h; simp) | (rcases h with h | h <;> subst h <;> simp))
+
+/-- a rendering that begins `name _` begins with a compound variable, followed by an operator or nothing -/
+theorem tk_head_cvar {t : PExp} {ts : List Tok} {items : List Item} : Tk t ts items → ∀ (w : String) (r : List Tok),
+    ts = .word w :: .us :: r → ∃ e es its ts', Idx (e :: es) its ∧ ts = .word w :: its ++ ts' ∧ OpStart ts'
+  | .atom ha, w, r, h => by cases ha <;> cases h
+  | .paren _, w, r, h => by cases h
+  | .un hin hm, w, r, h => by
+    obtain ⟨tk, tl, ht, hs⟩ := tk_head hin
+    rw [ht] at h
+    injection h with _ h2; injection h2 with h3 _
+    subst h3; cases hs
+  | @Tk.bin o l rr L R il ir optok hl hr _ _ hm, w, r, h => by
+    obtain ⟨tk, tl, ht, hs⟩ := tk_head hl
+    cases tl with
+    | nil =>
+      rw [ht] at h
+      simp only [List.cons_append, List.nil_append] at h
+      injection h with _ h2; injection h2 with h3 _
+      exact absurd h3 (binTok_ne hm).2
+    | cons t2 tl2 =>
+      rw [ht] at h
+      simp only [List.cons_append] at h
+      injection h with h1 h2; injection h2 with h3 h4
+      subst h1 h3
+      obtain ⟨e, es, its, ts', hi, hL, hop⟩ := tk_head_cvar hl w tl2 ht
+      refine ⟨e, es, its, ts' ++ optok :: R, hi, by rw [hL]; simp, ?_⟩
+      rcases hop with rfl | ⟨tk', tl', o', rfl, hm'⟩
+      · exact Or.inr ⟨optok, R, o, rfl, hm⟩
+      · exact Or.inr ⟨tk', tl' ++ optok :: R, o', rfl, hm'⟩
+  | .imul hj _ _, w, r, h => by
+    obtain ⟨tk, tl, ht, hk⟩ := juxt_head hj
+    rw [ht] at h
+    simp only [List.cons_append] at h
+    injection h with h1 _
+    rcases hk with ⟨s, rfl⟩ | ⟨s, rfl⟩ | rfl <;> cases h1
+  | .call _ _ _, w, r, h => by simp at h
+  | .arr _, w, r, h => by cases h
+  | @Tk.cvar n e es its hi, w, r, h => by
+    injection h with h1 _
+    injection h1 with h1
+    subst h1
+    exact ⟨e, es, its, [], hi, by simp, Or.inl rfl⟩
+  | .access _ _ hi, w, r, h => by
+    obtain ⟨r0, rfl⟩ := acc_head hi
+    simp at h
+  | .block _ _ _ _ _, w, r, h => by simp at h
+  | .scoped _ _ _ _ _ _, w, r, h => by simp at h
+
+/-- the fuel `parseFuel` of a token list, written as a successor -/
+theorem parseFuel_succ (toks : List Tok) : parseFuel toks = (6 * toks.length + 9) + 1 := by simp [parseFuel]
+
+theorem nameAt_plain {n : String} (hk : isKeyword n = false) (r : List Tok) (hr : ∀ tl, r ≠ .us :: tl) :
+    nameAt (.word n :: r) = .ok (some (.plain n), r) := by
+  unfold nameAt
+  rw [parseFuel_succ]
+  cases r with
+  | nil => simp [optVariable, hk, CName.ofExp]
+  | cons tk tl => cases tk <;> first | exact absurd rfl (hr tl) | simp [optVariable, hk, CName.ofExp]
+
+theorem nameAt_compound {n : String} {e : PExp} {es : List PExp} {its : List Tok} (hi : Idx (e :: es) its) (r : List Tok)
+    (hr : ∀ tl, r ≠ .us :: tl) : nameAt (.word n :: its ++ r) = .ok (some (.compound n (e :: es)), r) := by
+  obtain ⟨r0, hr0⟩ := idx_head hi
+  unfold nameAt
+  rw [parseFuel_succ]
+  have hidx := idx_main hi r [] (6 * (Tok.word n :: its ++ r).length + 9) hr (by simp; omega)
+  subst hr0
+  have := optVariable_cvar (n := n) (f := 6 * (Tok.word n :: Tok.us :: r0 ++ r).length + 9) (r := r0 ++ r) (by simpa using hidx)
+  simp only [List.cons_append] at this ⊢
+  rw [this]
+  rfl
+
+/-- well-formed declared name: a plain name that is no keyword, or a compound variable -/
+def WFname : CName → Prop
+  | .plain n => isKeyword n = false
+  | .compound _ idx => idx ≠ [] ∧ WFx.WFidx idx
+
+theorem nameAt_fmt {v : CName} (h : WFname v) (r : List Tok) (hr : ∀ tl, r ≠ .us :: tl) :
+    nameAt (cnameToks v ++ r) = .ok (some v, r) := by
+  cases v with
+  | plain n => simpa [cnameToks] using nameAt_plain h r hr
+  | compound n idx =>
+    cases idx with
+    | nil => exact absurd rfl h.1
+    | cons e es =>
+      have hi := fmtIdx_tk (e :: es) h.2
+      simpa [cnameToks] using nameAt_compound (n := n) hi r hr
+
+theorem CName_buildErr {v : CName} (h : WFname v) : v.buildErr = none := by
+  cases v with
+  | plain n => rfl
+  | compound n idx => exact idx_valid (fmtIdx_tk idx h.2)
+
+theorem cnameToks_head {v : CName} : ∃ w tl, cnameToks v = .word w :: tl := by
+  cases v <;> exact ⟨_, _, rfl⟩
+
+theorem optVariable_word (f : Nat) (w : String) (t2 : Tok) (tl : List Tok) (hu : t2 ≠ .us) :
+    optVariable (f+1) (.word w :: t2 :: tl) =
+      if isKeyword w then .ok (none, .word w :: t2 :: tl) else .ok (some (.var w), t2 :: tl) := by
+  cases t2 <;> first | exact absurd rfl hu | simp only [optVariable]
+
+theorem constraintName_word (w : String) (t2 : Tok) (tl : List Tok) (h2 : t2 ≠ .colon) (hu : t2 ≠ .us) :
+    constraintName (.word w :: t2 :: tl) = .ok (none, .word w :: t2 :: tl) := by
+  unfold constraintName nameAt
+  rw [parseFuel_succ, optVariable_word _ w t2 tl hu]
+  by_cases hk : isKeyword w = true
+  · simp [hk]
+  · simp only [hk, Bool.false_eq_true, if_false, CName.ofExp]
+    cases t2 <;> first | exact absurd rfl h2 | rfl
+
+theorem constraintName_nonword {tk : Tok} (h : ∀ w, tk ≠ .word w) (tl : List Tok) :
+    constraintName (tk :: tl) = .ok (none, tk :: tl) := by
+  unfold constraintName nameAt
+  rw [parseFuel_succ]
+  cases tk <;> first | exact absurd rfl (h _) | simp [optVariable]
+
+theorem constraintName_single (w : String) : constraintName [.word w] = .ok (none, [.word w]) := by
+  unfold constraintName nameAt
+  rw [parseFuel_succ]
+  by_cases hk : isKeyword w = true <;> simp [optVariable, hk, CName.ofExp]
+
+/-- a constraint name is not mistaken where there is none: behind the variable an expression may begin with, no `:`
+follows -/
+theorem constraintName_none' {t : PExp} {ts : List Tok} {items : List Item} (hk : Tk t ts items) {rest : List Tok}
+    (hx : ∀ tl, rest ≠ .colon :: tl) (hxu : ∀ tl, rest ≠ .us :: tl) :
+    constraintName (ts ++ rest) = .ok (none, ts ++ rest) := by
+  obtain ⟨tk, tl, hts, hs⟩ := tk_head hk
+  have hnc := tk_no_colon hk
+  -- the first token decides
+  cases tk with
+  | word w =>
+    cases tl with
+    | nil =>
+      subst hts
+      cases rest with
+      | nil => exact constraintName_single w
+      | cons x tail =>
+        exact constraintName_word w x tail (fun e => hx tail (by rw [e])) (fun e => hxu tail (by rw [e]))
+    | cons t2 tl2 =>
+      subst hts
+      have h2 : t2 ≠ .colon := by intro e; subst e; simp at hnc
+      by_cases hu : t2 = .us
+      · subst hu
+        obtain ⟨e, es, its, ts', hi, hL, hop⟩ := tk_head_cvar hk w tl2 rfl
+        rw [hL, List.append_assoc]
+        have hru : ∀ tl, ts' ++ rest ≠ .us :: tl := by
+          rcases hop with rfl | ⟨tk', tl', o', rfl, hm'⟩
+          · intro tl e; exact hxu tl (by simpa using e)
+          · intro tl e; injection e with e _; exact (binTok_ne hm').2 e
+        have := nameAt_compound (n := w) hi (ts' ++ rest) hru
+        unfold constraintName
+        simp only [List.cons_append] at this ⊢
+        rw [this]
+        rcases hop with rfl | ⟨tk', tl', o', rfl, hm'⟩
+        · cases rest with
+          | nil => rfl
+          | cons x tail =>
+            have hxc : x ≠ .colon := fun e => hx tail (by rw [e])
+            cases x <;> first | exact absurd rfl hxc | rfl
+        · have := (binTok_ne hm').1
+          cases tk' <;> first | exact absurd rfl this | rfl
+      · exact constraintName_word w t2 _ h2 hu
+  | int s => subst hts; exact constraintName_nonword (by intro w e; cases e) _
+  | float s => subst hts; exact constraintName_nonword (by intro w e; cases e) _
+  | lpar => subst hts; exact constraintName_nonword (by intro w e; cases e) _
+  | minus => subst hts; exact constraintName_nonword (by intro w e; cases e) _
+  | bang => subst hts; exact constraintName_nonword (by intro w e; cases e) _
+  | lbrack => subst hts; exact constraintName_nonword (by intro w e; cases e) _
+  | str s => subst hts; exact constraintName_nonword (by intro w e; cases e) _
+  | _ => cases hs
+
+theorem constraintName_none {t : PExp} {ts : List Tok} {items : List Item} (hk : Tk t ts items) {x : Tok} {tail : List Tok}
+    (hx : x ≠ .colon) (hxu : x ≠ .us) :
+    constraintName (ts ++ x :: tail) = .ok (none, ts ++ x :: tail) :=
+  constraintName_none' hk (by intro tl e; injection e with e _; exact hx e) (by intro tl e; injection e with e _; exact hxu e)
+
+/-! ### `for` iterations behind a constraint / a declaration -/
+
+/-- the text (after NEWLINEs) begins with a word that reads `for` in some letter case -/
+def ForLike (X : List Tok) : Prop := ∃ w r, skipNl X = .word w :: r ∧ lowerWord w = "for"
+
+theorem optFor_none {X : List Tok} (h : ¬ ForLike X) : optFor X = .ok (([], []), X) := by
+  unfold optFor
+  split
+  · rename_i w r heq
+    have : ¬ lowerWord w = "for" := fun e => h ⟨w, r, heq, e⟩
+    simp [this]
+  · rfl
+
+/-- the text does not begin with a word that reads `for` in some letter case -/
+def NotForHead (X : List Tok) : Prop := ∀ w r, X = .word w :: r → lowerWord w ≠ "for"
+
+theorem notForLike_nl {X : List Tok} (hs : skipNl X = X) (h : NotForHead X) : ¬ ForLike (.nl :: X) := by
+  rintro ⟨w, r, heq, hl⟩
+  simp only [skipNl, hs] at heq
+  exact h w r heq hl
+
+/-- no iteration, or as many variables as iterators (at least one) -/
+def WFfor (vs : List IterVar) (its : List PExp) : Prop := (vs = [] ∧ its = []) ∨ WFx.WFits vs its
+
+theorem wfits_ne {vs : List IterVar} {its : List PExp} (h : WFx.WFits vs its) : its ≠ [] := by
+  intro e; subst e
+  cases vs with
+  | nil => simp [WFx.WFits] at h
+  | cons v vs => cases vs <;> simp [WFx.WFits] at h
+
+theorem optFor_fmt {vs : List IterVar} {its : List PExp} (h : WFfor vs its) (rest : List Tok) (hend : IterEnd rest)
+    (hnf : ¬ ForLike rest) : optFor (forToks vs its ++ rest) = .ok ((vs, its), rest) := by
+  rcases h with ⟨rfl, rfl⟩ | h
+  · simpa [forToks] using optFor_none hnf
+  · have hne := wfits_ne h
+    have hit := fmtIters_tk vs its h
+    have hemp : its.isEmpty = false := by cases its <;> simp_all
+    have hlow : lowerWord "for" = "for" := by decide
+    unfold optFor
+    simp only [forToks, hemp, Bool.false_eq_true, if_false, List.cons_append, skipNl_word, hlow, beq_self_eq_true, if_true]
+    rw [iters_main hit rest [] [] _ hend (by simp [parseFuel])]
+    rfl
+
+theorem closed_forToks {vs : List IterVar} {its : List PExp} (h : WFfor vs its) (rest : List Tok) :
+    Closed (forToks vs its ++ .nl :: rest) := by
+  rcases h with ⟨rfl, rfl⟩ | h
+  · simpa [forToks] using closed_nl rest
+  · have hne := wfits_ne h
+    have hemp : its.isEmpty = false := by cases its <;> simp_all
+    simp only [forToks, hemp, Bool.false_eq_true, if_false, List.cons_append]
+    exact closed_for _ (start_not_us (iters_head (fmtIters_tk vs its h)) _)
+
+theorem forToks_head {vs : List IterVar} {its : List PExp} (rest : List Tok) :
+    ∃ tk tl, forToks vs its ++ .nl :: rest = tk :: tl ∧ (tk = .nl ∨ tk = .word "for") := by
+  unfold forToks
+  split
+  · exact ⟨_, _, rfl, Or.inl rfl⟩
+  · exact ⟨_, _, rfl, Or.inr rfl⟩
+
+theorem buildErr_for {vs : List IterVar} {its : List PExp} (h : WFfor vs its) : buildErrList its = none := by
+  rcases h with ⟨rfl, rfl⟩ | h
+  · rfl
+  · exact iters_valid (fmtIters_tk vs its h)
+
+/-! ### constraints -/
+
+/-- well-formed constraint of the printable fragment -/
+structure WFcx (c : PConstraint) : Prop where
+  name : match c.name with
+    | none => True
+    | some n => WFname n
+  lhs : WFx c.lhs
+  rhs : if c.logic = true then c.cmp = .eq ∧ c.rhs = .bool true else WFx c.rhs
+  iter : WFfor c.iterVars c.iters
+  /-- the constraint does not begin with a word that reads `for`: it would be taken for the iteration of the
+  constraint before it (`^"for"` is matched in any letter case) -/
+  nofor : NotForHead (constraintToks c)
 
 theorem cmpOfTok_cmpTok (c : Cmp) : cmpOfTok (cmpTok c) = some c := by cases c <;> rfl
 theorem cmpTok_term (c : Cmp) : isTerm (cmpTok c) = true := by cases c <;> rfl
+theorem closed_cmp (c : Cmp) (tl : List Tok) : Closed (cmpTok c :: tl) :=
+  closed_of_term (cmpTok_term c) (by intro w e; cases c <;> cases e) tl
 
-/-- a constraint name is not mistaken where there is none: the second token of an expression text followed
-by a comparison / NEWLINE is never `:` -/
-theorem constraintName_none {ts : List Tok} {x : Tok} {tail : List Tok} (hne : ∃ tk tl, ts = tk :: tl)
-    (hall : ∀ tk ∈ ts, isExprTok tk = true) (hx : x ≠ .colon) :
-    constraintName (ts ++ x :: tail) = (none, ts ++ x :: tail) := by
-  obtain ⟨tk, tl, rfl⟩ := hne
-  cases tl with
-  | nil =>
-    cases tk <;> first | rfl | skip
-    rename_i w
-    cases x <;> first | rfl | exact absurd rfl hx
-  | cons t2 tl2 =>
-    have h2 : t2 ≠ .colon := by
-      intro e; have := hall t2 (by simp); rw [e] at this; cases this
-    cases tk <;> first | rfl | skip
-    rename_i w
-    cases t2 <;> first | rfl | exact absurd rfl h2
-
-theorem parseConstraint_fmt {c : PConstraint} (h : WFc c) (rest : List Tok) :
+theorem parseConstraint_fmt {c : PConstraint} (h : WFcx c) (rest : List Tok) (hnf : ¬ ForLike (.nl :: rest)) :
     parseConstraint (constraintToks c ++ .nl :: rest) = .ok (c, .nl :: rest) := by
-  obtain ⟨hn, hl, hr, hiv, hit⟩ := h
+  obtain ⟨hn, hl, hr, hfor, _⟩ := h
   obtain ⟨name, lhs, cmp, rhs, logic, iterVars, iters⟩ := c
-  simp only at hn hl hr hiv hit
-  subst hiv hit
+  simp only at hn hl hr hfor
+  have hend : IterEnd (.nl :: rest) := Or.inr ⟨_, _, rfl, Or.inr rfl⟩
+  have hof := optFor_fmt hfor (.nl :: rest) hend hnf
   -- the body after the (optional) name
   have hbody : ∀ nm, constraintBody nm
-        (fmtToks lhs ++ ((if logic = true then [] else cmpTok cmp :: fmtToks rhs) ++ .nl :: rest)) =
-      .ok ({ name := nm, lhs := lhs, cmp := cmp, rhs := rhs, logic := logic, iterVars := [], iters := [] }, .nl :: rest) := by
+        (fmtToks lhs ++ ((if logic = true then [] else cmpTok cmp :: fmtToks rhs) ++ (forToks iterVars iters ++ .nl :: rest))) =
+      .ok ({ name := nm, lhs := lhs, cmp := cmp, rhs := rhs, logic := logic, iterVars := iterVars, iters := iters }, .nl :: rest) := by
     intro nm
     unfold constraintBody
     cases logic with
@@ -151,36 +382,43 @@ theorem parseConstraint_fmt {c : PConstraint} (h : WFc c) (rest : List Tok) :
       obtain ⟨hc, hrr⟩ : cmp = .eq ∧ rhs = .bool true := by simpa using hr
       subst hc hrr
       simp only [if_true, List.nil_append]
-      rw [expAt_fmt hl (closed_nl rest)]
-      simp [cmpOfTok]
+      rw [expAt_fmt hl (closed_forToks hfor rest)]
+      obtain ⟨tk, tl, hh, htk⟩ := forToks_head (vs := iterVars) (its := iters) rest
+      simp only [hof]
+      rw [hh] at hof ⊢
+      rcases htk with rfl | rfl <;> simp [cmpOfTok, hof]
     | false =>
-      have hr' : WF rhs := by simpa using hr
+      have hr' : WFx rhs := by simpa using hr
       simp only [Bool.false_eq_true, if_false, List.cons_append]
-      rw [expAt_fmt hl (closed_of_term (cmpTok_term cmp) _)]
+      rw [expAt_fmt hl (closed_cmp cmp _)]
       simp only [cmpOfTok_cmpTok]
-      rw [expAt_fmt hr' (closed_nl rest)]
+      rw [expAt_fmt hr' (closed_forToks hfor rest)]
+      simp only [hof]
+  have hx : ∃ x tail, (if logic = true then [] else cmpTok cmp :: fmtToks rhs) ++ (forToks iterVars iters ++ .nl :: rest) = x :: tail
+      ∧ x ≠ .colon ∧ x ≠ .us := by
+    cases logic with
+    | true =>
+      obtain ⟨tk, tl, hh, htk⟩ := forToks_head (vs := iterVars) (its := iters) rest
+      refine ⟨tk, tl, by simpa using hh, ?_, ?_⟩ <;> rcases htk with rfl | rfl <;> simp
+    | false => exact ⟨cmpTok cmp, fmtToks rhs ++ (forToks iterVars iters ++ .nl :: rest), by simp, by cases cmp <;> simp [cmpTok], by cases cmp <;> simp [cmpTok]⟩
   unfold parseConstraint
   match name, hn with
   | none, _ =>
-    have hcn : constraintName (constraintToks { name := none, lhs := lhs, cmp := cmp, rhs := rhs, logic := logic, iterVars := [], iters := [] } ++ .nl :: rest)
-        = (none, fmtToks lhs ++ ((if logic = true then [] else cmpTok cmp :: fmtToks rhs) ++ .nl :: rest)) := by
-      simp only [constraintToks, List.nil_append, List.append_assoc]
-      cases logic with
-      | true =>
-        simpa using constraintName_none (x := .nl) (tail := rest) (fmtToks_cons lhs hl) (fmtToks_expr lhs) (by simp)
-      | false =>
-        have := constraintName_none (x := cmpTok cmp) (tail := fmtToks rhs ++ .nl :: rest) (fmtToks_cons lhs hl) (fmtToks_expr lhs)
-          (by cases cmp <;> simp [cmpTok])
-        simpa using this
-    rw [hcn]
+    obtain ⟨items, hk, _⟩ := fmt_tk lhs hl
+    obtain ⟨x, tail, hxe, hx1, hx2⟩ := hx
+    have hcn := constraintName_none hk (x := x) (tail := tail) hx1 hx2
+    simp only [constraintToks, List.nil_append, List.append_assoc]
+    rw [hxe, hcn]
+    simp only
+    rw [← hxe]
     exact hbody none
-  | some (.plain n), hk =>
-    have hcn : constraintName (constraintToks { name := some (.plain n), lhs := lhs, cmp := cmp, rhs := rhs, logic := logic, iterVars := [], iters := [] } ++ .nl :: rest)
-        = (some (.plain n), fmtToks lhs ++ ((if logic = true then [] else cmpTok cmp :: fmtToks rhs) ++ .nl :: rest)) := by
-      simp only [constraintToks, cnameToks, List.cons_append, List.nil_append, List.append_assoc, constraintName, hk]
-      simp [skipNl_fmt hl]
+  | some n, hwn =>
+    have hcn := nameAt_fmt hwn (.colon :: (fmtToks lhs ++ ((if logic = true then [] else cmpTok cmp :: fmtToks rhs) ++ (forToks iterVars iters ++ .nl :: rest))))
+      (by intro tl e; cases e)
+    simp only [constraintToks, List.append_assoc, List.cons_append, List.nil_append, constraintName]
     rw [hcn]
-    exact hbody (some (.plain n))
+    simp only [skipNl_fmt hl]
+    exact hbody (some n)
 
 /-! ### where an expression cannot start -/
 
@@ -188,60 +426,92 @@ theorem expAt_nil : expAt [] = .error .reject := by
   simp [expAt, parseFuel, parseExp, collect, optUnary, leaf]
 
 theorem expAt_keyword {w : String} (hk : isKeyword w = true) (hb : Gen.booleanWords.contains w = false) (hn : w ≠ "not")
-    (r : List Tok) (hr : ∀ tl, r ≠ .lpar :: tl) : expAt (.word w :: r) = .error .reject := by
-  have hf : parseFuel (.word w :: r) = (6 * r.length + 13) + 3 := by simp [parseFuel]; omega
-  have hu : optUnary (.word w :: r) = ([], .word w :: r) := by simp [optUnary, unRule_word hn]
-  have hl : leaf (6 * r.length + 13 + 1) (.word w :: r) = .error .reject := by
+    (r : List Tok) (hr : ∀ tl, r ≠ .lpar :: tl ∧ r ≠ .lbrace :: tl ∧ r ≠ .lbrack :: tl ∧ r ≠ .us :: tl) :
+    expAt (.word w :: r) = .error .reject := by
+  have hf : parseFuel (.word w :: r) = (6 * r.length + 12) + 4 := by simp [parseFuel]; omega
+  have hu : optUnary (.word w :: r) = ([], .word w :: r) := optUnary_word hn r
+  have hl : leaf (6 * r.length + 12 + 2) (.word w :: r) = .error .reject := by
     rw [leaf_word _ _ _ hr]; simp only [wordLeaf, hb, hk]; rfl
   simp only [expAt, hf, parseExp, collect, hu, hl]
 
 theorem constraint_stops_nil : parseConstraint [] = .error .reject := by
-  simp [parseConstraint, constraintName, constraintBody, expAt_nil]
+  simp [parseConstraint, constraintName, nameAt, parseFuel, optVariable, constraintBody, expAt_nil]
 
 theorem constraint_stops_kw {w : String} (hk : isKeyword w = true) (hb : Gen.booleanWords.contains w = false) (hn : w ≠ "not")
     (r : List Tok) : parseConstraint (.word w :: .nl :: r) = .error .reject := by
-  have : expAt (.word w :: .nl :: r) = .error .reject := expAt_keyword hk hb hn _ (by intro tl h; cases h)
-  simp [parseConstraint, constraintName, constraintBody, this]
+  have : expAt (.word w :: .nl :: r) = .error .reject := expAt_keyword hk hb hn _ (by intro tl; simp)
+  have hcn := constraintName_word w .nl r (by simp) (by simp)
+  simp [parseConstraint, hcn, constraintBody, this]
 
 /-- what may follow the constraint list: nothing, `where …` or `define …` -/
 def StopsC (X : List Tok) : Prop :=
   X = [] ∨ (∃ r, X = .word "where" :: .nl :: r) ∨ (∃ r, X = .word "define" :: .nl :: r)
 
-theorem stopsC_spec {X : List Tok} (h : StopsC X) : parseConstraint X = .error .reject ∧ skipNl X = X := by
+theorem stopsC_spec {X : List Tok} (h : StopsC X) : parseConstraint X = .error .reject ∧ skipNl X = X ∧ NotForHead X := by
   rcases h with rfl | ⟨r, rfl⟩ | ⟨r, rfl⟩
-  · exact ⟨constraint_stops_nil, rfl⟩
-  · exact ⟨constraint_stops_kw (by decide) (by decide) (by decide) r, rfl⟩
-  · exact ⟨constraint_stops_kw (by decide) (by decide) (by decide) r, rfl⟩
+  · exact ⟨constraint_stops_nil, rfl, by intro w r e; cases e⟩
+  · refine ⟨constraint_stops_kw (by decide) (by decide) (by decide) r, rfl, ?_⟩
+    intro w r' e; injection e with e _; injection e with e; subst e; decide
+  · refine ⟨constraint_stops_kw (by decide) (by decide) (by decide) r, rfl, ?_⟩
+    intro w r' e; injection e with e _; injection e with e; subst e; decide
 
-theorem skipNl_constraint {c : PConstraint} (h : WFc c) (rest : List Tok) :
-    skipNl (constraintToks c ++ rest) = constraintToks c ++ rest := by
-  obtain ⟨hn, hl, _⟩ := h
+theorem constraintToks_head {c : PConstraint} (h : WFcx c) : ∃ tk tl, constraintToks c = tk :: tl ∧ startTok tk = true := by
   unfold constraintToks
-  match hc : c.name, hn with
-  | none, _ => simp only [List.nil_append, List.append_assoc]; exact skipNl_fmt hl _
-  | some (.plain n), _ => simp [cnameToks, skipNl]
+  cases hn : c.name with
+  | none =>
+    simp only [List.nil_append, List.append_assoc]
+    exact start_append (fmt_head h.lhs) _
+  | some n =>
+    obtain ⟨w, tl, hw⟩ := cnameToks_head (v := n)
+    simp only [hw, List.cons_append, List.append_assoc]
+    exact ⟨.word w, _, rfl, rfl⟩
+
+theorem skipNl_constraint {c : PConstraint} (h : WFcx c) (rest : List Tok) :
+    skipNl (constraintToks c ++ rest) = constraintToks c ++ rest := skipNl_start (constraintToks_head h) rest
+
+theorem notFor_append {A : List Tok} (hA : NotForHead A) (hne : A ≠ []) (B : List Tok) : NotForHead (A ++ B) := by
+  intro w r e
+  cases A with
+  | nil => exact absurd rfl hne
+  | cons a A' =>
+    simp only [List.cons_append] at e
+    injection e with e1 _
+    exact hA w A' (by rw [e1])
+
+/-- what follows a constraint in the list: the next constraint or what follows the list -/
+theorem next_notFor : ∀ (cs : List PConstraint), (∀ c ∈ cs, WFcx c) → ∀ (X : List Tok), StopsC X →
+    skipNl (constraintsToks cs ++ X) = constraintsToks cs ++ X ∧ NotForHead (constraintsToks cs ++ X)
+  | [], _, X, hX => by simpa [constraintsToks] using (stopsC_spec hX).2
+  | c :: cs, h, X, hX => by
+    have hc := h c List.mem_cons_self
+    obtain ⟨tk, tl, hh, hs⟩ := constraintToks_head hc
+    simp only [constraintsToks, List.append_assoc, List.cons_append]
+    exact ⟨skipNl_constraint hc _, notFor_append hc.nofor (by rw [hh]; simp) _⟩
 
 /-- the constraint list, entered after a NEWLINE -/
-theorem loopC : ∀ (cs : List PConstraint), (∀ c ∈ cs, WFc c) → ∀ (X : List Tok) (acc : List PConstraint) (f : Nat),
+theorem loopC : ∀ (cs : List PConstraint), (∀ c ∈ cs, WFcx c) → ∀ (X : List Tok) (acc : List PConstraint) (f : Nat),
     StopsC X → cs.length < f →
     parseConstraints f (.nl :: (constraintsToks cs ++ X)) acc = .ok (acc ++ cs, .nl :: X)
   | [], _, X, acc, f, hX, hf => by
     obtain ⟨f', rfl⟩ : ∃ f', f = f' + 1 := ⟨f - 1, by simp at hf; omega⟩
-    obtain ⟨h1, h2⟩ := stopsC_spec hX
+    obtain ⟨h1, h2, _⟩ := stopsC_spec hX
     simp [parseConstraints, constraintsToks, skipNl, h2, h1]
   | c :: cs, h, X, acc, f, hX, hf => by
     obtain ⟨f', rfl⟩ : ∃ f', f = f' + 1 := ⟨f - 1, by simp at hf; omega⟩
     have hc := h c List.mem_cons_self
-    have ih := loopC cs (fun d hd => h d (List.mem_cons_of_mem _ hd)) X (acc ++ [c]) f' hX (by simp at hf; omega)
+    have hcs := fun d hd => h d (List.mem_cons_of_mem _ hd)
+    have ih := loopC cs hcs X (acc ++ [c]) f' hX (by simp at hf; omega)
+    obtain ⟨hn1, hn2⟩ := next_notFor cs hcs X hX
     simp only [parseConstraints, constraintsToks, skipNl, List.append_assoc, List.cons_append]
-    rw [skipNl_constraint hc, parseConstraint_fmt hc]
+    rw [skipNl_constraint hc, parseConstraint_fmt hc _ (notForLike_nl hn1 hn2)]
     simp only [ih]
     simp
 
 /-- the constraint list right after `s.t.` NEWLINE (at least one constraint) -/
-theorem firstC {c : PConstraint} {cs : List PConstraint} (h : ∀ d ∈ c :: cs, WFc d) (X : List Tok) (hX : StopsC X) :
+theorem firstC {c : PConstraint} {cs : List PConstraint} (h : ∀ d ∈ c :: cs, WFcx d) (X : List Tok) (hX : StopsC X) :
     parseConstraints ((constraintsToks (c :: cs) ++ X).length + 1) (constraintsToks (c :: cs) ++ X) [] = .ok (c :: cs, .nl :: X) := by
   have hc := h c List.mem_cons_self
+  have hcs := fun d hd => h d (List.mem_cons_of_mem _ hd)
   have hlen : cs.length < (constraintsToks (c :: cs) ++ X).length := by
     have : ∀ (l : List PConstraint), l.length ≤ (constraintsToks l).length := by
       intro l; induction l with
@@ -249,9 +519,10 @@ theorem firstC {c : PConstraint} {cs : List PConstraint} (h : ∀ d ∈ c :: cs,
       | cons a l ih => simp [constraintsToks]; omega
     have := this cs
     simp [constraintsToks]; omega
+  obtain ⟨hn1, hn2⟩ := next_notFor cs hcs X hX
   simp only [parseConstraints, constraintsToks, List.append_assoc, List.cons_append]
-  rw [skipNl_constraint hc, parseConstraint_fmt hc]
-  have := loopC cs (fun d hd => h d (List.mem_cons_of_mem _ hd)) X [c] _ hX (by simpa [constraintsToks] using hlen)
+  rw [skipNl_constraint hc, parseConstraint_fmt hc _ (notForLike_nl hn1 hn2)]
+  have := loopC cs hcs X [c] _ hX (by simpa [constraintsToks] using hlen)
   simpa [constraintsToks] using this
 
 /-! ### `where` -/
@@ -259,7 +530,7 @@ theorem firstC {c : PConstraint} {cs : List PConstraint} (h : ∀ d ∈ c :: cs,
 /-- what may follow the constants: nothing or `define …` -/
 def StopsK (Y : List Tok) : Prop := Y = [] ∨ ∃ r, Y = .word "define" :: .nl :: r
 
-theorem loopK : ∀ (ks : List (String × PExp)), (∀ k ∈ ks, WF k.2) → ∀ (Y : List Tok) (acc : List (String × PExp)) (f : Nat),
+theorem loopK : ∀ (ks : List (String × PExp)), (∀ k ∈ ks, WFx k.2) → ∀ (Y : List Tok) (acc : List (String × PExp)) (f : Nat),
     StopsK Y → ks.length < f →
     parseConsts f (.nl :: (constsToks ks ++ Y)) acc = .ok (acc ++ ks, .nl :: Y)
   | [], _, Y, acc, f, hY, hf => by
@@ -267,7 +538,7 @@ theorem loopK : ∀ (ks : List (String × PExp)), (∀ k ∈ ks, WF k.2) → ∀
     rcases hY with rfl | ⟨r, rfl⟩ <;> simp [parseConsts, constsToks, needNl, skipNl]
   | (n, v) :: ks, h, Y, acc, f, hY, hf => by
     obtain ⟨f', rfl⟩ : ∃ f', f = f' + 1 := ⟨f - 1, by simp at hf; omega⟩
-    have hv : WF v := h (n, v) List.mem_cons_self
+    have hv : WFx v := h (n, v) List.mem_cons_self
     have ih := loopK ks (fun d hd => h d (List.mem_cons_of_mem _ hd)) Y (acc ++ [(n, v)]) f' hY (by simp at hf; omega)
     simp only [parseConsts, constsToks, needNl, skipNl, List.cons_append, List.append_assoc]
     rw [expAt_fmt hv (closed_nl _)]
@@ -276,62 +547,64 @@ theorem loopK : ∀ (ks : List (String × PExp)), (∀ k ∈ ks, WF k.2) → ∀
 
 /-! ### `define` -/
 
-def plainName : CName → Prop
-  | .plain n => isKeyword n = false
-  | .compound _ _ => False
-
-def WFt : PVarType → Prop
+def WFtx : PVarType → Prop
   | .boolean => True
   | .nonNegReal none none => True
-  | .nonNegReal (some a) (some b) => WF a ∧ WF b
+  | .nonNegReal (some a) (some b) => WFx a ∧ WFx b
   | .real none none => True
-  | .real (some a) (some b) => WF a ∧ WF b
-  | .intRange a b => WF a ∧ WF b
+  | .real (some a) (some b) => WFx a ∧ WFx b
+  | .intRange a b => WFx a ∧ WFx b
   | _ => False
 
-/-- well-formed domain declaration of the fragment -/
-def WFd (d : PDomain) : Prop :=
-  d.vars ≠ [] ∧ (∀ v ∈ d.vars, plainName v) ∧ WFt d.ty ∧ d.iterVars = [] ∧ d.iters = []
+/-- well-formed domain declaration of the printable fragment -/
+structure WFdx (d : PDomain) : Prop where
+  ne : d.vars ≠ []
+  names : ∀ v ∈ d.vars, WFname v
+  ty : WFtx d.ty
+  iter : WFfor d.iterVars d.iters
+  nofor : NotForHead (domainToks d)
 
-theorem parseDomainVars_fmt : ∀ (vs : List CName), vs ≠ [] → (∀ v ∈ vs, plainName v) → ∀ (R : List Tok) (acc : List CName) (f : Nat),
-    vs.length ≤ f → (∀ tl, R ≠ .comma :: tl) →
-    parseDomainVars f (varListToks vs ++ R) acc = some (acc ++ vs, R)
-  | [], h, _, _, _, _, _, _ => absurd rfl h
-  | [.plain n], _, hp, R, acc, f, hf, hR => by
+/-- what the PEG phase reads of a printed declaration -/
+def rawDomain (d : PDomain) : RawDomain :=
+  let (nm, args) : String × Option (List PExp) :=
+    match d.ty with
+    | .boolean => ("Boolean", none)
+    | .nonNegReal (some a) (some b) => ("NonNegativeReal", some [a, b])
+    | .nonNegReal _ _ => ("NonNegativeReal", none)
+    | .real (some a) (some b) => ("Real", some [a, b])
+    | .real _ _ => ("Real", none)
+    | .intRange a b => ("IntegerRange", some [a, b])
+  { vars := d.vars, tyName := nm, args := args, iterVars := d.iterVars, iters := d.iters }
+
+theorem parseDomainVars_fmt : ∀ (vs : List CName), vs ≠ [] → (∀ v ∈ vs, WFname v) → ∀ (T : List Tok) (acc : List CName) (f : Nat),
+    vs.length ≤ f →
+    parseDomainVars f (varListToks vs ++ .word "as" :: T) acc = .ok (acc ++ vs, .word "as" :: T)
+  | [], h, _, _, _, _, _ => absurd rfl h
+  | [v], _, hp, T, acc, f, hf => by
     obtain ⟨f', rfl⟩ : ∃ f', f = f' + 1 := ⟨f - 1, by simp at hf; omega⟩
-    have hk : isKeyword n = false := hp (.plain n) List.mem_cons_self
-    cases R with
-    | nil => simp [parseDomainVars, varListToks, cnameToks, hk]
-    | cons t tl =>
-      have : t ≠ .comma := fun e => hR tl (by rw [e])
-      cases t <;> first | exact absurd rfl this | simp [parseDomainVars, varListToks, cnameToks, hk]
-  | [.compound _ _], _, hp, _, _, _, _, _ => absurd (hp _ List.mem_cons_self) (by simp [plainName])
-  | .plain n :: w :: rest, _, hp, R, acc, f, hf, hR => by
+    have := nameAt_fmt (hp v List.mem_cons_self) (.word "as" :: T) (by intro tl e; cases e)
+    simp [parseDomainVars, varListToks, this]
+  | v :: w :: rest, _, hp, T, acc, f, hf => by
     obtain ⟨f', rfl⟩ : ∃ f', f = f' + 1 := ⟨f - 1, by simp at hf; omega⟩
-    have hk : isKeyword n = false := hp (.plain n) List.mem_cons_self
-    have ih := parseDomainVars_fmt (w :: rest) (by simp) (fun v hv => hp v (List.mem_cons_of_mem _ hv)) R (acc ++ [.plain n]) f'
-      (by simp at hf ⊢; omega) hR
-    have hskip : skipNl (varListToks (w :: rest) ++ R) = varListToks (w :: rest) ++ R := by
-      have hw : plainName w := hp w (by simp)
-      cases w with
-      | plain m => cases rest <;> simp [varListToks, cnameToks, skipNl]
-      | compound _ _ => exact absurd hw (by simp [plainName])
-    simp only [parseDomainVars, varListToks, cnameToks, List.cons_append, List.nil_append, hk, List.append_assoc]
-    simp only [Bool.false_eq_true, if_false]
+    have ih := parseDomainVars_fmt (w :: rest) (by simp) (fun v hv => hp v (List.mem_cons_of_mem _ hv)) T (acc ++ [v]) f'
+      (by simp at hf ⊢; omega)
+    have hskip : skipNl (varListToks (w :: rest) ++ .word "as" :: T) = varListToks (w :: rest) ++ .word "as" :: T := by
+      obtain ⟨x, tl, hx⟩ := cnameToks_head (v := w)
+      cases rest <;> simp [varListToks, hx, skipNl]
+    have := nameAt_fmt (hp v List.mem_cons_self) (.comma :: (varListToks (w :: rest) ++ .word "as" :: T)) (by intro tl e; cases e)
+    simp only [parseDomainVars, varListToks, List.append_assoc, List.cons_append, this]
     rw [hskip, ih]
     simp
-  | .compound _ _ :: _ :: _, _, hp, _, _, _, _, _ => absurd (hp _ List.mem_cons_self) (by simp [plainName])
 
-theorem varListToks_len : ∀ (vs : List CName), (∀ v ∈ vs, plainName v) → vs.length ≤ (varListToks vs).length
-  | [], _ => by simp
-  | [.plain _], _ => by simp [varListToks, cnameToks]
-  | [.compound _ _], h => absurd (h _ List.mem_cons_self) (by simp [plainName])
-  | .plain _ :: w :: rest, h => by
-    have := varListToks_len (w :: rest) (fun v hv => h v (List.mem_cons_of_mem _ hv))
-    simp [varListToks, cnameToks] at this ⊢; omega
-  | .compound _ _ :: _ :: _, h => absurd (h _ List.mem_cons_self) (by simp [plainName])
+theorem varListToks_len : ∀ (vs : List CName), vs.length ≤ (varListToks vs).length
+  | [] => by simp
+  | [v] => by obtain ⟨x, tl, hx⟩ := cnameToks_head (v := v); simp [varListToks, hx]
+  | v :: w :: rest => by
+    have := varListToks_len (w :: rest)
+    obtain ⟨x, tl, hx⟩ := cnameToks_head (v := v)
+    simp [varListToks, hx] at this ⊢; omega
 
-theorem typeArgs2 {a b : PExp} (ha : WF a) (hb : WF b) (R : List Tok) (f : Nat) (hf : 2 ≤ f) :
+theorem typeArgs2 {a b : PExp} (ha : WFx a) (hb : WFx b) (R : List Tok) (f : Nat) (hf : 2 ≤ f) :
     parseTypeArgs f (fmtToks a ++ .comma :: (fmtToks b ++ .rpar :: R)) [] = .ok ([a, b], R) := by
   obtain ⟨f', rfl⟩ : ∃ f', f = f' + 2 := ⟨f - 2, by omega⟩
   simp only [parseTypeArgs]
@@ -340,89 +613,133 @@ theorem typeArgs2 {a b : PExp} (ha : WF a) (hb : WF b) (R : List Tok) (f : Nat) 
   rw [expAt_fmt hb (closed_rpar _)]
   simp
 
-theorem parseDomain_fmt {d : PDomain} (h : WFd d) (rest : List Tok) :
-    parseDomain (domainToks d ++ .nl :: rest) = .ok (d, .nl :: rest) := by
-  obtain ⟨hne, hp, ht, hiv, hit⟩ := h
+theorem parseDomain_fmt {d : PDomain} (h : WFdx d) (rest : List Tok) (hnf : ¬ ForLike (.nl :: rest)) :
+    parseDomain (domainToks d ++ .nl :: rest) = .ok (rawDomain d, .nl :: rest) := by
+  obtain ⟨hne, hp, ht, hfor, _⟩ := h
   obtain ⟨vars, ty, iterVars, iters⟩ := d
-  simp only at hne hp ht hiv hit
-  subst hiv hit
+  simp only at hne hp ht hfor
+  have hend : IterEnd (.nl :: rest) := Or.inr ⟨_, _, rfl, Or.inr rfl⟩
+  have hof := optFor_fmt hfor (.nl :: rest) hend hnf
   have hvars : ∀ T, parseDomainVars ((varListToks vars ++ .word "as" :: T).length + 1) (varListToks vars ++ .word "as" :: T) []
-      = some (vars, .word "as" :: T) := by
+      = .ok (vars, .word "as" :: T) := by
     intro T
-    have := parseDomainVars_fmt vars hne hp (.word "as" :: T) [] ((varListToks vars ++ .word "as" :: T).length + 1)
-      (by have := varListToks_len vars hp; simp; omega) (by intro tl e; cases e)
+    have := parseDomainVars_fmt vars hne hp T [] ((varListToks vars ++ .word "as" :: T).length + 1)
+      (by have := varListToks_len vars; simp; omega)
     simpa using this
   have has : lowerWord "as" = "as" := by decide
+  obtain ⟨tk, tl, hh, htk⟩ := forToks_head (vs := iterVars) (its := iters) rest
+  have hnl : ∀ r3, forToks iterVars iters ++ .nl :: rest ≠ .lpar :: r3 := by
+    intro r3 e; rw [hh] at e; injection e with e _; rcases htk with rfl | rfl <;> cases e
+  have plain : ∀ (nm : String), domainTail vars nm (forToks iterVars iters ++ .nl :: rest)
+      = .ok ({ vars := vars, tyName := nm, args := none, iterVars := iterVars, iters := iters }, .nl :: rest) := by
+    intro nm
+    have : domainTail vars nm (forToks iterVars iters ++ .nl :: rest) = domainFinish vars nm none (forToks iterVars iters ++ .nl :: rest) := by
+      unfold domainTail
+      split
+      · rename_i r3 heq; exact absurd heq (hnl r3)
+      · rfl
+    rw [this, domainFinish, hof]
+  have withArgs : ∀ (nm : String) (a b : PExp), WFx a → WFx b →
+      domainTail vars nm (.lpar :: (fmtToks a ++ .comma :: (fmtToks b ++ .rpar :: (forToks iterVars iters ++ .nl :: rest))))
+      = .ok ({ vars := vars, tyName := nm, args := some [a, b], iterVars := iterVars, iters := iters }, .nl :: rest) := by
+    intro nm a b ha hb
+    simp only [domainTail]
+    rw [typeArgs2 ha hb _ _ (by simp; omega)]
+    simp only [domainFinish, hof]
   unfold parseDomain
   simp only [domainToks, List.append_assoc, List.cons_append]
   rw [hvars]
   simp only [skipNl_word]
   match ty, ht with
-  | .boolean, _ => simp [typeToks, has, isTypeName, isKeyword, mkVarType]; decide
-  | .nonNegReal none none, _ => simp [typeToks, has, isTypeName, isKeyword, mkVarType]; decide
-  | .real none none, _ => simp [typeToks, has, isTypeName, isKeyword, mkVarType]; decide
+  | .boolean, _ =>
+    have ht1 : isTypeName "Boolean" = true := by decide
+    have ht2 : isKeyword "Boolean" = false := by decide
+    simp only [typeToks, List.cons_append, List.nil_append, has, ht1, ht2, beq_self_eq_true, Bool.and_self,
+      Bool.not_false, if_true]
+    exact plain "Boolean"
+  | .nonNegReal none none, _ =>
+    have ht1 : isTypeName "NonNegativeReal" = true := by decide
+    have ht2 : isKeyword "NonNegativeReal" = false := by decide
+    simp only [typeToks, List.cons_append, List.nil_append, has, ht1, ht2, beq_self_eq_true, Bool.and_self,
+      Bool.not_false, if_true]
+    exact plain "NonNegativeReal"
+  | .real none none, _ =>
+    have ht1 : isTypeName "Real" = true := by decide
+    have ht2 : isKeyword "Real" = false := by decide
+    simp only [typeToks, List.cons_append, List.nil_append, has, ht1, ht2, beq_self_eq_true, Bool.and_self,
+      Bool.not_false, if_true]
+    exact plain "Real"
   | .nonNegReal (some a) (some b), ⟨ha, hb⟩ =>
     have ht1 : isTypeName "NonNegativeReal" = true := by decide
     have ht2 : isKeyword "NonNegativeReal" = false := by decide
     simp only [typeToks, List.cons_append, List.append_assoc, List.nil_append, has, ht1, ht2, beq_self_eq_true, Bool.and_self,
-      Bool.not_false, Bool.and_true, if_true]
-    rw [typeArgs2 ha hb _ _ (by simp; omega)]
-    simp [mkVarType]
+      Bool.not_false, if_true]
+    exact withArgs "NonNegativeReal" a b ha hb
   | .real (some a) (some b), ⟨ha, hb⟩ =>
     have ht1 : isTypeName "Real" = true := by decide
     have ht2 : isKeyword "Real" = false := by decide
     simp only [typeToks, List.cons_append, List.append_assoc, List.nil_append, has, ht1, ht2, beq_self_eq_true, Bool.and_self,
-      Bool.not_false, Bool.and_true, if_true]
-    rw [typeArgs2 ha hb _ _ (by simp; omega)]
-    simp [mkVarType]
+      Bool.not_false, if_true]
+    exact withArgs "Real" a b ha hb
   | .intRange a b, ⟨ha, hb⟩ =>
     have ht1 : isTypeName "IntegerRange" = true := by decide
     have ht2 : isKeyword "IntegerRange" = false := by decide
     simp only [typeToks, List.cons_append, List.append_assoc, List.nil_append, has, ht1, ht2, beq_self_eq_true, Bool.and_self,
-      Bool.not_false, Bool.and_true, if_true]
-    rw [typeArgs2 ha hb _ _ (by simp; omega)]
-    simp [mkVarType]
+      Bool.not_false, if_true]
+    exact withArgs "IntegerRange" a b ha hb
 
-theorem skipNl_domain {d : PDomain} (h : WFd d) (rest : List Tok) :
-    skipNl (domainToks d ++ rest) = domainToks d ++ rest := by
-  obtain ⟨hne, hp, _⟩ := h
+theorem domainToks_head {d : PDomain} (h : WFdx d) : ∃ tk tl, domainToks d = tk :: tl ∧ startTok tk = true := by
   unfold domainToks
   cases hv : d.vars with
-  | nil => exact absurd hv hne
+  | nil => exact absurd hv h.ne
   | cons v vs =>
-    have hpv : plainName v := hp v (by rw [hv]; exact List.mem_cons_self)
-    cases v with
-    | plain n => cases vs <;> simp [varListToks, cnameToks, skipNl]
-    | compound _ _ => exact absurd hpv (by simp [plainName])
+    obtain ⟨w, tl, hw⟩ := cnameToks_head (v := v)
+    cases vs with
+    | nil => simp only [varListToks, hw, List.cons_append]; exact ⟨_, _, rfl, rfl⟩
+    | cons v2 vs => simp only [varListToks, hw, List.cons_append, List.append_assoc]; exact ⟨_, _, rfl, rfl⟩
+
+theorem skipNl_domain {d : PDomain} (h : WFdx d) (rest : List Tok) :
+    skipNl (domainToks d ++ rest) = domainToks d ++ rest := skipNl_start (domainToks_head h) rest
 
 theorem parseDomain_nil : parseDomain [] = .error .reject := by
-  simp [parseDomain, parseDomainVars]
+  simp [parseDomain, parseDomainVars, nameAt, parseFuel, optVariable]
 
-theorem loopD : ∀ (ds : List PDomain), (∀ d ∈ ds, WFd d) → ∀ (acc : List PDomain) (f : Nat), ds.length < f →
-    parseDomains f (.nl :: domainsToks ds) acc = .ok (acc ++ ds, [.nl])
+theorem nextD_notFor : ∀ (ds : List PDomain), (∀ d ∈ ds, WFdx d) →
+    skipNl (domainsToks ds) = domainsToks ds ∧ NotForHead (domainsToks ds)
+  | [], _ => ⟨rfl, by intro w r e; cases e⟩
+  | d :: ds, h => by
+    have hd := h d List.mem_cons_self
+    obtain ⟨tk, tl, hh, hs⟩ := domainToks_head hd
+    simp only [domainsToks]
+    exact ⟨skipNl_domain hd _, notFor_append hd.nofor (by rw [hh]; simp) _⟩
+
+theorem loopD : ∀ (ds : List PDomain), (∀ d ∈ ds, WFdx d) → ∀ (acc : List RawDomain) (f : Nat), ds.length < f →
+    parseDomains f (.nl :: domainsToks ds) acc = .ok (acc ++ ds.map rawDomain, [.nl])
   | [], _, acc, f, hf => by
     obtain ⟨f', rfl⟩ : ∃ f', f = f' + 1 := ⟨f - 1, by simp at hf; omega⟩
     simp [parseDomains, domainsToks, needNl, skipNl, parseDomain_nil]
   | d :: ds, h, acc, f, hf => by
     obtain ⟨f', rfl⟩ : ∃ f', f = f' + 1 := ⟨f - 1, by simp at hf; omega⟩
     have hd := h d List.mem_cons_self
-    have ih := loopD ds (fun e he => h e (List.mem_cons_of_mem _ he)) (acc ++ [d]) f' (by simp at hf; omega)
+    have hds := fun e he => h e (List.mem_cons_of_mem _ he)
+    have ih := loopD ds hds (acc ++ [rawDomain d]) f' (by simp at hf; omega)
+    obtain ⟨hn1, hn2⟩ := nextD_notFor ds hds
     simp only [parseDomains, domainsToks, needNl]
-    rw [skipNl_domain hd, parseDomain_fmt hd]
+    rw [skipNl_domain hd, parseDomain_fmt hd _ (notForLike_nl hn1 hn2)]
     simp only [ih]
     simp
 
 /-! ### whole programs -/
 
-/-- well-formed program of the fragment: no iterations, simple names, two-sided or no domain bounds; a program
-with `where` / `define` has at least one constraint (the grammar cannot express the other case) -/
-structure WFp (m : PModel) : Prop where
+/-- well-formed program of the printable fragment; a program with `where` / `define` has at least one constraint
+(the grammar cannot express the other case) -/
+structure WFpx (m : PModel) : Prop where
   obj : match m.objKind with
     | .solve => m.objective = .bool true
-    | _ => WF m.objective
-  cons : ∀ c ∈ m.constraints, WFc c
-  ks : ∀ k ∈ m.constants, WF k.2
-  ds : ∀ d ∈ m.domains, WFd d
+    | _ => WFx m.objective
+  cons : ∀ c ∈ m.constraints, WFcx c
+  ks : ∀ k ∈ m.constants, WFx k.2
+  ds : ∀ d ∈ m.domains, WFdx d
   some_constraint : m.constraints ≠ [] ∨ (m.constants = [] ∧ m.domains = [])
 
 theorem lens_le_consts : ∀ (ks : List (String × PExp)), ks.length ≤ (constsToks ks).length
@@ -446,10 +763,10 @@ theorem decl_stops (ks : List (String × PExp)) (ds : List PDomain) : StopsC (de
     | cons d ds => right; right; exact ⟨domainsToks (d :: ds), by simp⟩
   | cons k ks => right; left; exact ⟨constsToks (k :: ks) ++ (if ds.isEmpty then [] else .word "define" :: .nl :: domainsToks ds), by simp⟩
 
-theorem parse_define (ds : List PDomain) (hds : ∀ d ∈ ds, WFd d) (kind : ObjKind) (obj : PExp)
+theorem parse_define (ds : List PDomain) (hds : ∀ d ∈ ds, WFdx d) (obj : RawObjective)
     (cs : List PConstraint) (consts : List (String × PExp)) :
-    parseDefineEnd (Tok.nl :: (if ds.isEmpty then [] else .word "define" :: .nl :: domainsToks ds)) kind obj cs consts
-      = .ok { objKind := kind, objective := obj, constraints := cs, constants := consts, domains := ds } := by
+    parseDefineEnd (Tok.nl :: (if ds.isEmpty then [] else .word "define" :: .nl :: domainsToks ds)) obj cs consts
+      = .ok { objective := obj, constraints := cs, constants := consts, domains := ds.map rawDomain } := by
   have hdf : lowerWord "define" = "define" := by decide
   unfold parseDefineEnd
   cases ds with
@@ -459,16 +776,16 @@ theorem parse_define (ds : List PDomain) (hds : ∀ d ∈ ds, WFd d) (kind : Obj
     simp only [List.isEmpty_cons, Bool.false_eq_true, if_false, needNl, skipNl, hdf, beq_self_eq_true, if_true, List.length_cons, hl]
     simp [skipNl]
 
-theorem parse_decls (ks : List (String × PExp)) (ds : List PDomain) (hks : ∀ k ∈ ks, WF k.2) (hds : ∀ d ∈ ds, WFd d)
-    (kind : ObjKind) (obj : PExp) (cs : List PConstraint) :
-    parseDecls (.nl :: declToksL ks ds) kind obj cs
-      = .ok { objKind := kind, objective := obj, constraints := cs, constants := ks, domains := ds } := by
+theorem parse_decls (ks : List (String × PExp)) (ds : List PDomain) (hks : ∀ k ∈ ks, WFx k.2) (hds : ∀ d ∈ ds, WFdx d)
+    (obj : RawObjective) (cs : List PConstraint) :
+    parseDecls (.nl :: declToksL ks ds) obj cs
+      = .ok { objective := obj, constraints := cs, constants := ks, domains := ds.map rawDomain } := by
   have hw : lowerWord "where" = "where" := by decide
   have hdw : (lowerWord "define" == "where") = false := by decide
   unfold parseDecls declToksL
   cases ks with
   | nil =>
-    have hd := parse_define ds hds kind obj cs []
+    have hd := parse_define ds hds obj cs []
     cases ds with
     | nil => simpa [needNl, skipNl] using hd
     | cons d ds =>
@@ -484,14 +801,18 @@ theorem parse_decls (ks : List (String × PExp)) (ds : List PDomain) (hks : ∀ 
         (by have := lens_le_consts (k :: ks); simp at this ⊢; omega)
     simp only [List.isEmpty_cons, Bool.false_eq_true, if_false, List.cons_append, needNl, skipNl, hw, beq_self_eq_true, if_true,
       List.length_cons, hl]
-    simpa using parse_define ds hds kind obj cs (k :: ks)
+    simpa using parse_define ds hds obj cs (k :: ks)
 
 theorem progToks_eq (m : PModel) :
     progToks m = objectiveToks m ++ .nl :: .st :: .nl :: (constraintsToks m.constraints ++ declToksL m.constants m.domains) := rfl
 
-/-- **Whole programs round-trip**: the tokens the program printer writes for a program of the fragment are read
-back by the program-level parser as the same program. -/
-theorem parseProgram_fmt (m : PModel) (h : WFp m) : parseProgram (progToks m) = .ok m := by
+/-- what the PEG phase reads of a printed program -/
+def rawOf (m : PModel) : RawProgram :=
+  { objective := { word := m.objKind.text, body := match m.objKind with | .solve => none | _ => some m.objective },
+    constraints := m.constraints, constants := m.constants, domains := m.domains.map rawDomain }
+
+/-- **PEG phase**: the printed tokens of a program of the fragment are read as its raw form -/
+theorem parseProgramRaw_fmt (m : PModel) (h : WFpx m) : parseProgramRaw (progToks m) = .ok (rawOf m) := by
   obtain ⟨kind, obj, cs, ks, ds⟩ := m
   obtain ⟨hobj, hcs, hks, hds, hsome⟩ := h
   simp only at hobj hcs hks hds hsome
@@ -499,22 +820,28 @@ theorem parseProgram_fmt (m : PModel) (h : WFp m) : parseProgram (progToks m) = 
   simp only
   -- objective
   have hO : ∀ T, parseObjective (skipNl (objectiveToks { objKind := kind, objective := obj, constraints := cs, constants := ks, domains := ds } ++ .nl :: T))
-      = .ok (kind, obj, .nl :: T) := by
+      = .ok ((rawOf { objKind := kind, objective := obj, constraints := cs, constants := ks, domains := ds }).objective, .nl :: T) := by
     intro T
     cases kind with
     | solve =>
       simp only at hobj; subst hobj
-      simp [objectiveToks, skipNl, parseObjective]
+      have h1 : (lowerWord "solve" == "min") = false := by decide
+      have h2 : (lowerWord "solve" == "max") = false := by decide
+      have h3 : (lowerWord "solve" == "solve") = true := by decide
+      simp [objectiveToks, skipNl, parseObjective, rawOf, ObjKind.text, h1, h2, h3]
     | min =>
-      have hw : WF obj := hobj
-      simp only [objectiveToks, List.cons_append, skipNl, parseObjective, beq_self_eq_true, if_true]
+      have hw : WFx obj := hobj
+      have h1 : (lowerWord "min" == "min") = true := by decide
+      simp only [objectiveToks, List.cons_append, skipNl, parseObjective, h1, Bool.true_or, if_true]
       rw [expAt_fmt hw (closed_nl T)]
+      rfl
     | max =>
-      have hw : WF obj := hobj
-      have : ("max" == "min") = false := by decide
-      simp only [objectiveToks, List.cons_append, skipNl, parseObjective, this, beq_self_eq_true, if_true, Bool.false_eq_true, if_false]
+      have hw : WFx obj := hobj
+      have h1 : (lowerWord "max" == "max") = true := by decide
+      simp only [objectiveToks, List.cons_append, skipNl, parseObjective, h1, Bool.or_true, if_true]
       rw [expAt_fmt hw (closed_nl T)]
-  unfold parseProgram
+      rfl
+  unfold parseProgramRaw
   rw [hO]
   simp only [needNl, skipNl]
   cases cs with
@@ -523,43 +850,363 @@ theorem parseProgram_fmt (m : PModel) (h : WFp m) : parseProgram (progToks m) = 
       rcases hsome with h | h
       · exact absurd rfl h
       · exact h
-    simp [constraintsToks, declToksL, skipNl, parseConstraints, constraint_stops_nil, parseDecls, parseDefineEnd, needNl]
+    simp [constraintsToks, declToksL, skipNl, parseConstraints, constraint_stops_nil, parseDecls, parseDefineEnd, needNl, rawOf]
   | cons c cs =>
     have hsk : skipNl (constraintsToks (c :: cs) ++ declToksL ks ds) = constraintsToks (c :: cs) ++ declToksL ks ds := by
       simp only [constraintsToks, List.append_assoc, List.cons_append]
       exact skipNl_constraint (hcs c List.mem_cons_self) _
     rw [hsk, firstC hcs _ (decl_stops ks ds)]
-    exact parse_decls ks ds hks hds kind obj (c :: cs)
+    exact parse_decls ks ds hks hds _ (c :: cs)
+
+/-! ### the AST builders accept it -/
+
+theorem firstErr_none (l : List (Option String)) (h : ∀ x ∈ l, x = none) : firstErr l = none := by
+  induction l with
+  | nil => rfl
+  | cons x xs ih =>
+    have := h x List.mem_cons_self
+    subst this
+    simp only [firstErr]
+    exact ih (fun y hy => h y (List.mem_cons_of_mem _ hy))
+
+theorem buildDomain_raw {d : PDomain} (h : WFdx d) : buildDomain (rawDomain d) = .ok d := by
+  obtain ⟨hne, hp, ht, hfor, _⟩ := h
+  obtain ⟨vars, ty, iterVars, iters⟩ := d
+  simp only at hne hp ht hfor
+  have hv : firstErr (vars.map CName.buildErr) = none := by
+    apply firstErr_none
+    intro x hx
+    simp only [List.mem_map] at hx
+    obtain ⟨v, hv, rfl⟩ := hx
+    exact CName_buildErr (hp v hv)
+  have hi := buildErr_for hfor
+  match ty, ht with
+  | .boolean, _ => simp [buildDomain, rawDomain, hv, hi, mkVarType]
+  | .nonNegReal none none, _ => simp [buildDomain, rawDomain, hv, hi, mkVarType]
+  | .real none none, _ => simp [buildDomain, rawDomain, hv, hi, mkVarType]
+  | .nonNegReal (some a) (some b), ⟨ha, hb⟩ =>
+    simp [buildDomain, rawDomain, hv, hi, mkVarType, firstErr, buildErr_fmt ha, buildErr_fmt hb]
+  | .real (some a) (some b), ⟨ha, hb⟩ =>
+    simp [buildDomain, rawDomain, hv, hi, mkVarType, firstErr, buildErr_fmt ha, buildErr_fmt hb]
+  | .intRange a b, ⟨ha, hb⟩ =>
+    simp [buildDomain, rawDomain, hv, hi, mkVarType, firstErr, buildErr_fmt ha, buildErr_fmt hb]
+
+theorem buildDomains_raw : ∀ (ds : List PDomain), (∀ d ∈ ds, WFdx d) → buildDomains (ds.map rawDomain) = .ok ds
+  | [], _ => rfl
+  | d :: ds, h => by
+    simp [buildDomains, buildDomain_raw (h d List.mem_cons_self),
+      buildDomains_raw ds (fun e he => h e (List.mem_cons_of_mem _ he))]
+
+theorem constraint_buildErr {c : PConstraint} (h : WFcx c) : c.buildErr = none := by
+  obtain ⟨hn, hl, hr, hfor, _⟩ := h
+  unfold PConstraint.buildErr
+  apply firstErr_none
+  intro x hx
+  simp only [List.mem_cons, List.not_mem_nil, or_false] at hx
+  rcases hx with rfl | rfl | rfl | rfl
+  · cases hcn : c.name with
+    | none => rfl
+    | some n => rw [hcn] at hn; exact CName_buildErr hn
+  · exact buildErr_for hfor
+  · exact buildErr_fmt hl
+  · by_cases hlg : c.logic = true
+    · simp only [hlg, if_true] at hr; rw [hr.2]; rfl
+    · simp only [hlg] at hr; exact buildErr_fmt hr
+
+/-- **AST builders**: the raw form of a program of the fragment is built into the program -/
+theorem buildProgram_raw (m : PModel) (h : WFpx m) : buildProgram (rawOf m) = .ok m := by
+  obtain ⟨kind, obj, cs, ks, ds⟩ := m
+  obtain ⟨hobj, hcs, hks, hds, _⟩ := h
+  simp only at hobj hcs hks hds
+  have hc : firstErr (cs.map PConstraint.buildErr) = none := by
+    apply firstErr_none
+    intro x hx
+    simp only [List.mem_map] at hx
+    obtain ⟨c, hc, rfl⟩ := hx
+    exact constraint_buildErr (hcs c hc)
+  have hk : firstErr (ks.map fun k => buildErr k.2) = none := by
+    apply firstErr_none
+    intro x hx
+    simp only [List.mem_map] at hx
+    obtain ⟨k, hk, rfl⟩ := hx
+    exact buildErr_fmt (hks k hk)
+  have hd := buildDomains_raw ds hds
+  cases kind with
+  | solve =>
+    simp only at hobj; subst hobj
+    simp [buildProgram, rawOf, buildObjective, ObjKind.text, hc, hk, hd]
+  | min =>
+    have hw : WFx obj := hobj
+    simp [buildProgram, rawOf, buildObjective, ObjKind.text, buildErr_fmt hw, hc, hk, hd]
+  | max =>
+    have hw : WFx obj := hobj
+    have : ("max" == "min") = false := by decide
+    simp [buildProgram, rawOf, buildObjective, ObjKind.text, buildErr_fmt hw, hc, hk, hd]
+
+/-- **Whole programs round-trip**: the tokens the program printer writes for a program of the printable fragment
+are read back by the program-level parser as the same program. -/
+theorem parseProgram_fmt (m : PModel) (h : WFpx m) : parseProgram (progToks m) = .ok m := by
+  simp [parseProgram, parseProgramRaw_fmt m h, buildProgram_raw m h]
+
+/-! ### the decidable fragment predicate implies well-formedness -/
+
+theorem blockKind_facts {k : String} (h : Gen.blockKinds.any (fun e => e.2 == k) = true) :
+    isFunctionName k = true ∧ k ≠ "not" ∧ canonKind Gen.blockKinds k = k := by
+  simp only [Gen.blockKinds, List.any_cons, List.any_nil, Bool.or_false, Bool.or_eq_true, beq_iff_eq] at h
+  rcases h with h | h | h | h | h | h | h | h | h | h <;> subst h <;> decide
+
+theorem scopedKind_facts {k : String} (h : Gen.scopedKinds.any (fun e => e.2 == k) = true) :
+    isFunctionName k = true ∧ k ≠ "not" ∧ canonKind Gen.scopedKinds k = k ∧ scopedKindErr k = none := by
+  have h' := h
+  simp only [Gen.scopedKinds, List.any_cons, List.any_nil, Bool.or_false, Bool.or_eq_true, beq_iff_eq] at h
+  rcases h with h | h | h | h | h | h | h | h | h | h | h <;> subst h <;> decide
+
+theorem plainVar_notKeyword {n : String} (h : plainVar n = true) : isKeyword n = false := by
+  simp only [plainVar, Bool.and_eq_true, Bool.not_eq_true'] at h; exact h.2
+
+theorem plainRun_ne_us {n : String} (h : isPlainRun n.toList = true) : n ≠ "_" := by
+  intro e; subst e; exact absurd h (by decide)
+
+theorem wfvar_of_printable {v : IterVar} (h : printableIterVar v = true) : WFx.WFvar v := by
+  cases v with
+  | single n =>
+    simp only [printableIterVar, plainVar, Bool.and_eq_true] at h
+    exact plainRun_ne_us h.1
+  | tuple ns =>
+    simp only [printableIterVar, Bool.and_eq_true, Bool.not_eq_true'] at h
+    intro e; subst e; simp at h
+
+mutual
+theorem coreExp_wf : (e : PExp) → coreExp e = true → WFx e
+  | .int v, h => by simpa [coreExp, WFx] using h
+  | .num _, _ => by simp [WFx]
+  | .bool _, _ => by simp [WFx]
+  | .str _, _ => by simp [WFx]
+  | .prim d, h => by
+    simp only [coreExp] at h
+    simp only [WFx]
+    cases hd : intArrayOf d with
+    | none => simp [hd] at h
+    | some ns =>
+      simp only [hd, Bool.and_eq_true, List.all_eq_true, decide_eq_true_eq, beq_iff_eq] at h
+      exact ⟨ns, rfl, h.1, h.2⟩
+  | .var n, h => by simp only [coreExp] at h; simp only [WFx]; exact plainVar_notKeyword h
+  | .cvar n idx, h => by
+    simp only [coreExp, Bool.and_eq_true, Bool.not_eq_true'] at h
+    simp only [WFx]
+    exact ⟨by intro e; subst e; simp at h, coreIdx_wf idx h.2⟩
+  | .access n idx, h => by
+    simp only [coreExp, Bool.and_eq_true, Bool.not_eq_true', bne_iff_ne, ne_eq] at h
+    simp only [WFx]
+    exact ⟨h.1.1.2, plainRun_ne_us h.1.1.1, by intro e; subst e; simp at h, coreList_wf idx h.2⟩
+  | .call n args, h => by
+    simp only [coreExp, Bool.and_eq_true, Bool.not_eq_true', bne_iff_ne, ne_eq] at h
+    simp only [WFx]
+    exact ⟨h.1.2, h.1.1.2, coreList_wf args h.2⟩
+  | .block k es, h => by
+    simp only [coreExp, Bool.and_eq_true, Bool.not_eq_true', Option.isNone_iff_eq_none] at h
+    simp only [WFx]
+    obtain ⟨h1, h2, h3⟩ := blockKind_facts h.1.1.1
+    exact ⟨h1, h2, h3, h.1.1.2, by intro e; subst e; simp at h, coreList_wf es h.2⟩
+  | .scoped k vs its b, h => by
+    simp only [coreExp, Bool.and_eq_true, Bool.not_eq_true', beq_iff_eq] at h
+    simp only [WFx]
+    obtain ⟨h1, h2, h3, h4⟩ := scopedKind_facts h.1.1.1.1.1
+    exact ⟨h1, h2, h3, h4, coreIters_wf vs its h.1.1.1.2 (by intro e; subst e; simp at h) h.1.1.2 h.1.2, coreExp_wf b h.2⟩
+  | .un _ e, h => by simp only [coreExp] at h; simp only [WFx]; exact coreExp_wf e h
+  | .bin _ l r, h => by
+    simp only [coreExp, Bool.and_eq_true] at h
+    simp only [WFx]
+    exact ⟨coreExp_wf l h.1, coreExp_wf r h.2⟩
+theorem coreList_wf : (es : List PExp) → coreList es = true → WFx.WFxs es
+  | [], _ => by simp [WFx.WFxs]
+  | e :: es, h => by
+    simp only [coreList, Bool.and_eq_true] at h
+    simp only [WFx.WFxs]
+    exact ⟨coreExp_wf e h.1, coreList_wf es h.2⟩
+theorem coreIdx_wf : (es : List PExp) → coreIdx es = true → WFx.WFidx es
+  | [], _ => by simp [WFx.WFidx]
+  | .num _ :: _, h => by simp [coreIdx] at h
+  | .str _ :: _, h => by simp [coreIdx] at h
+  | .var i :: es, h => by
+    simp only [coreIdx, Bool.and_eq_true] at h
+    simp only [WFx.WFidx]; exact coreIdx_wf es h.2
+  | .int v :: es, h => by
+    simp only [coreIdx, Bool.and_eq_true] at h
+    simp only [WFx.WFidx]; exact ⟨coreExp_wf _ h.1, coreIdx_wf es h.2⟩
+  | .bool b :: es, h => by
+    simp only [coreIdx, Bool.and_eq_true] at h
+    simp only [WFx.WFidx]; exact ⟨coreExp_wf _ h.1, coreIdx_wf es h.2⟩
+  | .prim d :: es, h => by
+    simp only [coreIdx, Bool.and_eq_true] at h
+    simp only [WFx.WFidx]; exact ⟨coreExp_wf _ h.1, coreIdx_wf es h.2⟩
+  | .cvar n i :: es, h => by
+    simp only [coreIdx, Bool.and_eq_true] at h
+    simp only [WFx.WFidx]; exact ⟨coreExp_wf _ h.1, coreIdx_wf es h.2⟩
+  | .access n i :: es, h => by
+    simp only [coreIdx, Bool.and_eq_true] at h
+    simp only [WFx.WFidx]; exact ⟨coreExp_wf _ h.1, coreIdx_wf es h.2⟩
+  | .call n i :: es, h => by
+    simp only [coreIdx, Bool.and_eq_true] at h
+    simp only [WFx.WFidx]; exact ⟨coreExp_wf _ h.1, coreIdx_wf es h.2⟩
+  | .block n i :: es, h => by
+    simp only [coreIdx, Bool.and_eq_true] at h
+    simp only [WFx.WFidx]; exact ⟨coreExp_wf _ h.1, coreIdx_wf es h.2⟩
+  | .scoped k vs its b :: es, h => by
+    simp only [coreIdx, Bool.and_eq_true] at h
+    simp only [WFx.WFidx]; exact ⟨coreExp_wf _ h.1, coreIdx_wf es h.2⟩
+  | .bin o l r :: es, h => by
+    simp only [coreIdx, Bool.and_eq_true] at h
+    simp only [WFx.WFidx]; exact ⟨coreExp_wf _ h.1, coreIdx_wf es h.2⟩
+  | .un o e :: es, h => by
+    simp only [coreIdx, Bool.and_eq_true] at h
+    simp only [WFx.WFidx]; exact ⟨coreExp_wf _ h.1, coreIdx_wf es h.2⟩
+theorem coreIters_wf : (vs : List IterVar) → (its : List PExp) → vs.length = its.length → its ≠ [] →
+    vs.all printableIterVar = true → coreIters its = true → WFx.WFits vs its
+  | [v], [e], _, _, hv, hi => by
+    simp only [List.all_cons, List.all_nil, Bool.and_true] at hv
+    simp only [coreIters, Bool.and_true] at hi
+    simp only [WFx.WFits]
+    exact ⟨wfvar_of_printable hv, coreIter_wf e hi⟩
+  | v :: v2 :: vs, e :: e2 :: es, hl, _, hv, hi => by
+    simp only [List.all_cons, Bool.and_eq_true] at hv
+    simp only [coreIters, Bool.and_eq_true] at hi
+    simp only [WFx.WFits]
+    refine ⟨wfvar_of_printable hv.1, coreIter_wf e hi.1, ?_⟩
+    exact coreIters_wf (v2 :: vs) (e2 :: es) (by simpa using hl) (by simp) (by simp [hv.2]) (by simp [coreIters, hi.2])
+  | [], [], _, hne, _, _ => absurd rfl hne
+  | [], _ :: _, hl, _, _, _ => by simp at hl
+  | _ :: _, [], _, hne, _, _ => absurd rfl hne
+  | [_], _ :: _ :: _, hl, _, _, _ => by simp at hl
+  | _ :: _ :: _, [_], hl, _, _, _ => by simp at hl
+theorem coreIter_wf : (e : PExp) → coreIter e = true → WFx.WFit e
+  | e, h => by
+    unfold WFx.WFit
+    split
+    · rename_i a b incl
+      simp only [coreIter, Bool.and_eq_true] at h
+      exact ⟨coreExp_wf a h.1, coreExp_wf b h.2⟩
+    · rename_i hne
+      have : coreExp e = true := by
+        unfold coreIter at h
+        split at h
+        · rename_i a b incl; exact absurd rfl (hne a b incl)
+        · exact h
+      exact coreExp_wf e this
+end
+
+theorem coreName_wf {v : CName} (h : coreName v = true) : WFname v := by
+  cases v with
+  | plain n => exact plainVar_notKeyword h
+  | compound n idx =>
+    simp only [coreName, Bool.and_eq_true, Bool.not_eq_true'] at h
+    exact ⟨by intro e; subst e; simp at h, coreIdx_wf idx h.2⟩
+
+theorem coreFor_wf {vs : List IterVar} {its : List PExp} (h : coreFor vs its = true) : WFfor vs its := by
+  simp only [coreFor, Bool.or_eq_true, Bool.and_eq_true, beq_iff_eq] at h
+  by_cases hi : its = []
+  · subst hi
+    rcases h with h | h
+    · left; exact ⟨by simpa using h.1, rfl⟩
+    · left; exact ⟨by have := h.1.1; simpa using this, rfl⟩
+  · rcases h with h | h
+    · exact absurd (by simpa using h.2) hi
+    · right; exact coreIters_wf vs its h.1.1 hi h.1.2 h.2
+
+theorem notForHead_wf {X : List Tok} (h : notForHead X = true) : NotForHead X := by
+  intro w r e
+  subst e
+  simpa [notForHead] using h
+
+theorem coreType_wf {t : PVarType} (h : coreType t = true) : WFtx t := by
+  match t, h with
+  | .boolean, _ => trivial
+  | .nonNegReal none none, _ => trivial
+  | .real none none, _ => trivial
+  | .nonNegReal (some a) (some b), h => simp only [coreType, Bool.and_eq_true] at h; exact ⟨coreExp_wf a h.1, coreExp_wf b h.2⟩
+  | .real (some a) (some b), h => simp only [coreType, Bool.and_eq_true] at h; exact ⟨coreExp_wf a h.1, coreExp_wf b h.2⟩
+  | .intRange a b, h => simp only [coreType, Bool.and_eq_true] at h; exact ⟨coreExp_wf a h.1, coreExp_wf b h.2⟩
+  | .nonNegReal (some _) none, h => simp [coreType] at h
+  | .nonNegReal none (some _), h => simp [coreType] at h
+  | .real (some _) none, h => simp [coreType] at h
+  | .real none (some _), h => simp [coreType] at h
+
+/-- the decidable fragment predicate of `Rooc/Syntax/ProgramToks.lean` implies the well-formedness the round trip needs -/
+theorem coreProgram_wf (m : PModel) (h : coreProgram m = true) : WFpx m := by
+  simp only [coreProgram, Bool.and_eq_true, List.all_eq_true, Bool.or_eq_true, Bool.not_eq_true'] at h
+  obtain ⟨⟨⟨⟨hobj, hcs⟩, hks⟩, hds⟩, hsome⟩ := h
+  refine ⟨?_, ?_, ?_, ?_, ?_⟩
+  · cases hk : m.objKind with
+    | solve =>
+      simp only [hk] at hobj ⊢
+      cases ho : m.objective with
+      | bool b => cases b <;> simp [ho] at hobj ⊢
+      | _ => simp [ho] at hobj
+    | min => simp only [hk] at hobj ⊢; exact coreExp_wf _ hobj
+    | max => simp only [hk] at hobj ⊢; exact coreExp_wf _ hobj
+  · intro c hc
+    obtain ⟨⟨⟨⟨hn, hl⟩, hr⟩, hf⟩, hnf⟩ := hcs c hc
+    refine ⟨?_, coreExp_wf _ hl, ?_, coreFor_wf hf, notForHead_wf hnf⟩
+    · cases hcn : c.name with
+      | none => trivial
+      | some n => rw [hcn] at hn; exact coreName_wf hn
+    · by_cases hlg : c.logic = true
+      · simp only [hlg, if_true, Bool.and_eq_true, beq_iff_eq] at hr ⊢
+        refine ⟨hr.1, ?_⟩
+        cases hrr : c.rhs with
+        | bool b => cases b <;> simp [hrr] at hr ⊢
+        | _ => simp [hrr] at hr
+      · simp only [hlg] at hr ⊢; exact coreExp_wf _ hr
+  · intro k hk
+    exact coreExp_wf _ (hks k hk).2
+  · intro d hd
+    obtain ⟨⟨⟨⟨hne, hn⟩, ht⟩, hf⟩, hnf⟩ := hds d hd
+    exact ⟨by intro e; simp [e] at hne, fun v hv => coreName_wf (hn v hv), coreType_wf ht, coreFor_wf hf, notForHead_wf hnf⟩
+  · rcases hsome with h | h
+    · left; intro e; simp [e] at h
+    · right; simp only [List.isEmpty_iff] at h; exact h
+
+/-- **`parse (format p) = p` on the printable fragment** (token level): for every program that satisfies the
+decidable predicate `printable`, the parser model reads the printed tokens back as the same program. -/
+theorem parse_format_printable (m : PModel) (h : printable m = true) : parseProgram (progToks m) = .ok m :=
+  parseProgram_fmt m (coreProgram_wf m h)
 
 /-! ### comparison chains -/
 
 theorem expAt_cmp (c : Cmp) (r : List Tok) : expAt (cmpTok c :: r) = .error .reject := by
   have hf : parseFuel (cmpTok c :: r) = (6 * r.length + 13) + 3 := by simp [parseFuel]; omega
-  have hu : optUnary (cmpTok c :: r) = ([], cmpTok c :: r) := by cases c <;> simp [optUnary, unRule, ruleOfTok, Tok.opSpelling, cmpTok]
+  have hu : optUnary (cmpTok c :: r) = ([], cmpTok c :: r) :=
+    optUnary_plain (by cases c <;> simp [unRule, ruleOfTok, Tok.opSpelling, cmpTok]) r
   have hl : leaf (6 * r.length + 13 + 1) (cmpTok c :: r) = .error .reject := by cases c <;> simp [leaf, cmpTok]
   simp only [expAt, hf, parseExp, collect, hu, hl]
 
 /-- **A comparison chain is not a constraint**: `a <= b <= c` (any comparisons) makes the program invalid. -/
-theorem comparison_chain_rejected {a b c : PExp} (ha : WF a) (hb : WF b) (hc : WF c) (c1 c2 : Cmp) :
+theorem comparison_chain_rejected {a b c : PExp} (ha : WFx a) (hb : WFx b) (hc : WFx c) (c1 c2 : Cmp) :
     parseProgram (.word "solve" :: .nl :: .st :: .nl ::
       (fmtToks a ++ cmpTok c1 :: (fmtToks b ++ cmpTok c2 :: (fmtToks c ++ [.nl])))) = .error .reject := by
-  have hcolon : cmpTok c1 ≠ .colon := by cases c1 <;> simp [cmpTok]
-  have hname := constraintName_none (x := cmpTok c1) (tail := fmtToks b ++ cmpTok c2 :: (fmtToks c ++ [.nl]))
-    (fmtToks_cons a ha) (fmtToks_expr a) hcolon
+  obtain ⟨items, hka, _⟩ := fmt_tk a ha
+  have hname := constraintName_none hka (x := cmpTok c1) (tail := fmtToks b ++ cmpTok c2 :: (fmtToks c ++ [.nl]))
+    (by cases c1 <;> simp [cmpTok]) (by cases c1 <;> simp [cmpTok])
+  have hnf : ¬ ForLike (cmpTok c2 :: (fmtToks c ++ [.nl])) := by
+    rintro ⟨w, r, heq, _⟩
+    cases c2 <;> simp [cmpTok, skipNl] at heq
   have hfirst : parseConstraint (fmtToks a ++ cmpTok c1 :: (fmtToks b ++ cmpTok c2 :: (fmtToks c ++ [.nl]))) =
       .ok ({ name := none, lhs := a, cmp := c1, rhs := b, logic := false, iterVars := [], iters := [] },
            cmpTok c2 :: (fmtToks c ++ [.nl])) := by
     unfold parseConstraint
     rw [hname]
+    simp only
     unfold constraintBody
-    rw [expAt_fmt ha (closed_of_term (cmpTok_term c1) _)]
+    rw [expAt_fmt ha (closed_cmp c1 _)]
     simp only [cmpOfTok_cmpTok]
-    rw [expAt_fmt hb (closed_of_term (cmpTok_term c2) _)]
+    rw [expAt_fmt hb (closed_cmp c2 _)]
+    simp only [optFor_none hnf]
   have hsecond : parseConstraint (cmpTok c2 :: (fmtToks c ++ [.nl])) = .error .reject := by
-    have hn : constraintName (cmpTok c2 :: (fmtToks c ++ [.nl])) = (none, cmpTok c2 :: (fmtToks c ++ [.nl])) := by
-      cases c2 <;> rfl
+    have hn : constraintName (cmpTok c2 :: (fmtToks c ++ [.nl])) = .ok (none, cmpTok c2 :: (fmtToks c ++ [.nl])) :=
+      constraintName_nonword (by intro w e; cases c2 <;> cases e) _
     unfold parseConstraint
     rw [hn]
+    simp only
     unfold constraintBody
     rw [expAt_cmp]
   have hsk1 : skipNl (fmtToks a ++ cmpTok c1 :: (fmtToks b ++ cmpTok c2 :: (fmtToks c ++ [.nl]))) = _ := skipNl_fmt ha _
@@ -568,17 +1215,106 @@ theorem comparison_chain_rejected {a b c : PExp} (ha : WF a) (hb : WF b) (hc : W
   have hlen : ∃ k, (fmtToks a ++ cmpTok c1 :: (fmtToks b ++ cmpTok c2 :: (fmtToks c ++ [.nl]))).length + 1 = k + 2 :=
     ⟨(fmtToks a).length + ((fmtToks b).length + ((fmtToks c).length + 1) + 1), by simp; omega⟩
   obtain ⟨k, hk⟩ := hlen
-  have hw : ("solve" == "min") = false := by decide
-  have hw2 : ("solve" == "max") = false := by decide
   have hcs : parseConstraints (k + 2) (fmtToks a ++ cmpTok c1 :: (fmtToks b ++ cmpTok c2 :: (fmtToks c ++ [.nl]))) [] =
       .ok ([{ name := none, lhs := a, cmp := c1, rhs := b, logic := false, iterVars := [], iters := [] }],
            cmpTok c2 :: (fmtToks c ++ [.nl])) := by
     simp only [parseConstraints, hsk1, hfirst, hsk2, hsecond]
     simp
-  have hdecl : ∀ kind obj cs, parseDecls (cmpTok c2 :: (fmtToks c ++ [.nl])) kind obj cs = .error .reject := by
-    intro kind obj cs
+  have hdecl : ∀ obj cs, parseDecls (cmpTok c2 :: (fmtToks c ++ [.nl])) obj cs = .error .reject := by
+    intro obj cs
     simp only [parseDecls, parseDefineEnd, hneed, hsk2]
-  unfold parseProgram
-  simp only [skipNl, parseObjective, needNl, hsk1, hw, hw2, Bool.false_eq_true, if_false, beq_self_eq_true, if_true, hk, hcs, hdecl]
+  have h1 : (lowerWord "solve" == "min") = false := by decide
+  have h2 : (lowerWord "solve" == "max") = false := by decide
+  have h3 : (lowerWord "solve" == "solve") = true := by decide
+  unfold parseProgram parseProgramRaw
+  simp only [skipNl, parseObjective, needNl, hsk1, h1, h2, h3, Bool.or_self, Bool.false_eq_true, if_false, if_true, hk, hcs, hdecl]
+
+/-! ### helpers kept for the users of the parser model (C12: `Proofs/DisplayParse.lean`) -/
+
+/-- tokens an expression is written with (no NEWLINE, `:`, comparison, `s.t.`) -/
+def isExprTok : Tok → Bool
+  | .nl | .colon | .le | .ge | .eq | .lt | .gt | .st => false
+  | _ => true
+
+theorem binKwTok_expr (o : BinOp) : isExprTok (binKwTok o) = true := by cases o <;> rfl
+theorem unKwTok_expr (u : UnOp) : isExprTok (unKwTok u) = true := by cases u <;> rfl
+
+theorem mem_paren_expr {xs : List Tok} (h : ∀ tk ∈ xs, isExprTok tk = true) : ∀ tk ∈ parenToks xs, isExprTok tk = true := by
+  intro tk htk
+  rcases List.mem_cons.mp htk with rfl | htk
+  · rfl
+  · rcases List.mem_append.mp htk with htk | htk
+    · exact h tk htk
+    · simp at htk; subst htk; rfl
+
+theorem skipNl_expr {tk : Tok} (h : isExprTok tk = true) (tl : List Tok) : skipNl (tk :: tl) = tk :: tl := by
+  cases tk <;> simp [isExprTok] at h <;> rfl
+
+/-- a constraint without iteration at the end of the text -/
+theorem optFor_nil : optFor [] = .ok (([], []), []) := rfl
+
+/-- the declarations of the fragment without iterations and with plain names (used by C12) -/
+def plainName : CName → Prop
+  | .plain n => isKeyword n = false
+  | .compound _ _ => False
+
+def WFt : PVarType → Prop
+  | .boolean => True
+  | .nonNegReal none none => True
+  | .nonNegReal (some a) (some b) => WF a ∧ WF b
+  | .real none none => True
+  | .real (some a) (some b) => WF a ∧ WF b
+  | .intRange a b => WF a ∧ WF b
+  | _ => False
+
+def WFd (d : PDomain) : Prop :=
+  d.vars ≠ [] ∧ (∀ v ∈ d.vars, plainName v) ∧ WFt d.ty ∧ d.iterVars = [] ∧ d.iters = []
+
+theorem wfd_wfdx {d : PDomain} (h : WFd d) (hnf : NotForHead (domainToks d)) : WFdx d := by
+  obtain ⟨hne, hp, ht, hiv, hit⟩ := h
+  refine ⟨hne, ?_, ?_, Or.inl ⟨hiv, hit⟩, hnf⟩
+  · intro v hv
+    have := hp v hv
+    cases v with
+    | plain n => exact this
+    | compound _ _ => exact absurd this (by simp [plainName])
+  · match hty : d.ty, ht with
+    | .boolean, _ => trivial
+    | .nonNegReal none none, _ => trivial
+    | .real none none, _ => trivial
+    | .nonNegReal (some a) (some b), ⟨ha, hb⟩ => exact ⟨wf_wfx a ha, wf_wfx b hb⟩
+    | .real (some a) (some b), ⟨ha, hb⟩ => exact ⟨wf_wfx a ha, wf_wfx b hb⟩
+    | .intRange a b, ⟨ha, hb⟩ => exact ⟨wf_wfx a ha, wf_wfx b hb⟩
+
+/-- the AST builders on a raw program whose parts they accept -/
+theorem buildProgram_ok {raw : RawProgram} {kind : ObjKind} {obj : PExp} {ds : List PDomain}
+    (ho : buildObjective raw.objective = .ok (kind, obj))
+    (hc : ∀ c ∈ raw.constraints, c.buildErr = none) (hk : ∀ k ∈ raw.constants, buildErr k.2 = none)
+    (hd : buildDomains raw.domains = .ok ds) :
+    buildProgram raw = .ok { objKind := kind, objective := obj, constraints := raw.constraints, constants := raw.constants, domains := ds } := by
+  have h1 : firstErr (raw.constraints.map PConstraint.buildErr) = none := by
+    apply firstErr_none
+    intro x hx
+    simp only [List.mem_map] at hx
+    obtain ⟨c, hc', rfl⟩ := hx
+    exact hc c hc'
+  have h2 : firstErr (raw.constants.map fun k => buildErr k.2) = none := by
+    apply firstErr_none
+    intro x hx
+    simp only [List.mem_map] at hx
+    obtain ⟨k, hk', rfl⟩ := hx
+    exact hk k hk'
+  simp [buildProgram, ho, h1, h2, hd]
+
+/-- a rendering whose leftmost leaf is not written with a word that reads `for` does not begin with one -/
+theorem notForHead_tk {t : PExp} {ts : List Tok} {items : List Item} (hk : Tk t ts items)
+    (h : ∀ w, headName t = some w → lowerWord w ≠ "for") (X : List Tok) : NotForHead (ts ++ X) := by
+  obtain ⟨tk, tl, hts, _⟩ := tk_head hk
+  intro w r e
+  rw [hts] at e
+  simp only [List.cons_append] at e
+  injection e with e1 _
+  subst e1
+  exact h w (tk_head_word hk w tl hts)
 
 end Rooc.Syntax.Proofs
